@@ -102,3 +102,1344 @@ Proof.
   cbn [run_ops ops_dirty fold_left]. unfold run_ops, ops_dirty in IH. rewrite IH. f_equal.
   destruct p; cbn [do_op op_dirty od]; try reflexivity. now destruct (getch (ob o)).
 Qed.
+
+(* ------------------------------------------------------------------ *)
+(* the state invariant *)
+Definition waits (p : pc) : Prop := p = PBlocked \/ p = PExit.
+Definition Inv (s : st) : Prop :=
+  bc_wf (sb s) /\ log_ok (sb s) (snb s) (slog s) /\
+  (forall a x c v, nth_error (acts s) a = Some x -> samp x = Some (c, v) -> samp_ok (sb s) (sg s) (sdirty s) c v) /\
+  (forall a x, nth_error (acts s) a = Some x -> waits (apc x) -> samp x <> None) /\
+  (forall a x pk k sl, nth_error (acts s) a = Some x -> ak x = KWait pk k sl ->
+       (apc x = PRet 4 -> acanc x = true) /\ (forall c v, samp x = Some (c, v) -> evalp pk k v = PFalse)).
+
+Lemma inv_upd s a x x' h :
+  Inv s -> nth_error (acts s) a = Some x ->
+  ak x' = ak x -> samp x' = samp x ->
+  (waits (apc x') -> samp x <> None) ->
+  (forall pk k sl, ak x = KWait pk k sl -> apc x' = PRet 4 -> acanc x' = true) ->
+  Inv (upd_actor s a x' h).
+Proof.
+  intros (Hwf & Hlog & Hs & Hb & Hw) G Hak Hsm Hbl Hc4.
+  unfold upd_actor. split; [|split; [|split; [|split]]]; cbn [sb sg sdirty snb slog acts].
+  - exact Hwf.
+  - exact Hlog.
+  - intros k y c v Hk Hy. apply set_nth_lookup in Hk as [(-> & -> & _)|(Hne & Hk)].
+    + rewrite Hsm in Hy. eauto.
+    + eauto.
+  - intros k y Hk Hy. apply set_nth_lookup in Hk as [(-> & -> & _)|(Hne & Hk)].
+    + rewrite Hsm. auto.
+    + eauto.
+  - intros k y pk kk sl Hk Hy. apply set_nth_lookup in Hk as [(-> & -> & _)|(Hne & Hk)].
+    + rewrite Hak in Hy. destruct (Hw a x pk kk sl G Hy) as [_ H2]. split; [eauto|]. rewrite Hsm. exact H2.
+    + eauto.
+Qed.
+
+Ltac nowaits := let H := fresh "Hw" in intros [H|H]; discriminate H.
+
+Lemma inv_setpc s a x p :
+  Inv s -> nth_error (acts s) a = Some x ->
+  (waits p -> samp x <> None) ->
+  (forall pk k sl, ak x = KWait pk k sl -> p = PRet 4 -> acanc x = true) ->
+  Inv (setpc s a x p).
+Proof. intros HI G H1 H2. unfold setpc. eapply inv_upd; eauto. Qed.
+
+Lemma inv_add s x :
+  Inv s -> samp x = None -> ~ waits (apc x) -> (apc x = PRet 4 -> acanc x = true) -> Inv (add_actor s x).
+Proof.
+  intros (Hwf & Hlog & Hs & Hb & Hw) Hsm Hnb Hc4.
+  unfold add_actor. split; [|split; [|split; [|split]]]; cbn [sb sg sdirty snb slog acts].
+  - exact Hwf.
+  - exact Hlog.
+  - intros k y c v Hk Hy. apply nth_error_app_inv in Hk as [Hk| ->]; [eauto | congruence].
+  - intros k y Hk Hy. apply nth_error_app_inv in Hk as [Hk| ->]; [eauto | contradiction].
+  - intros k y pk kk sl Hk Hy. apply nth_error_app_inv in Hk as [Hk| ->]; [eauto|].
+    split; [exact Hc4|]. intros c v Hcv. congruence.
+Qed.
+
+Lemma do_sect_inv s a : Inv s -> Inv (do_sect s a).
+Proof.
+  intros HI. pose proof HI as (Hwf & Hlog & Hs & Hb & Hw). unfold do_sect.
+  destruct (nth_error (acts s) a) as [x|] eqn:G; [|exact HI].
+  destruct (apc x) eqn:Ep; try exact HI.
+  destruct (ak x) as [ops hold block|pk kk sl] eqn:Ek.
+  - (* client callback *)
+    set (P := fun c v => exists k y, k <> a /\ nth_error (acts s) k = Some y /\ samp y = Some (c, v)).
+    set (o0 := {| ob := sb s; og := sg s; od := sdirty s; on := snb s; ol := slog s; osamp := samp x |}).
+    assert (H0 : OInv P o0).
+    { split; [exact Hwf|]. split; [exact Hlog|]. cbn [ob og od on ol osamp].
+      intros c v [(k & y & _ & Hk & Hy)|Hy]; eauto. }
+    pose proof (run_ops_inv P ops o0 H0) as (Hwf' & Hlog' & Hs').
+    remember (run_ops o0 ops) as o eqn:Eo. clear Eo.
+    split; [|split; [|split; [|split]]]; cbn [sb sg sdirty snb slog acts].
+    + exact Hwf'.
+    + exact Hlog'.
+    + intros k y c v Hk Hy. apply set_nth_lookup in Hk as [(-> & -> & _)|(Hne & Hk)].
+      * cbn [samp] in Hy. apply Hs'. now right.
+      * apply Hs'. left. exists k, y. auto.
+    + intros k y Hk Hy. apply set_nth_lookup in Hk as [(-> & -> & _)|(Hne & Hk)].
+      * cbn [samp apc] in *. destruct hold; [destruct Hy; discriminate|]. unfold after_client in Hy.
+        destruct block; [|destruct Hy; discriminate]. destruct (osamp o); [congruence | destruct Hy; discriminate].
+      * eauto.
+    + intros k y pk kk sl Hk Hy. apply set_nth_lookup in Hk as [(-> & -> & _)|(Hne & Hk)].
+      * cbn [ak] in Hy. congruence.
+      * eauto.
+  - (* Wait: predicate evaluated under the lock *)
+    destruct (evalp pk kk (sg s)) as [| |e] eqn:Ev.
+    + apply inv_setpc; auto; [nowaits | intros ? ? ? _ H4; inversion H4].
+    + pose proof (getch_open (sb s) Hwf) as Hopen. pose proof (getch_closed_same (sb s)) as Hsame.
+      pose proof (getch_nxt_mono (sb s)) as Hmono. pose proof (getch_wf (sb s) Hwf) as Hwf2.
+      pose proof (getch_cur (sb s)) as Hcur.
+      destruct (getch (sb s)) as [b' c0] eqn:EG. cbn [fst] in *. destruct Hopen as (Hlt & Hop & Hc0).
+      split; [|split; [|split; [|split]]]; cbn [sb sg sdirty snb slog acts].
+      * exact Hwf2.
+      * intros c k Hin. destruct (Hlog c k Hin) as (Hc & Hk & Hcl & Hcu).
+        split; [lia|]. split; [exact Hk|]. split.
+        -- intros Hk2. rewrite Hsame; auto.
+        -- intros Hk2. specialize (Hcu Hk2). specialize (Hcur c Hcu). inversion Hcur. subst b' c0. exact Hcu.
+      * intros k y c v Hk Hy. apply set_nth_lookup in Hk as [(-> & -> & _)|(Hne & Hk)].
+        -- cbn [samp] in Hy. inversion Hy; subst c v. split; [exact Hlt|]. right; left; reflexivity.
+        -- destruct (Hs k y c v Hk Hy) as (Hc & Hd). split; [lia|].
+           destruct Hd as [Hd|Hd]; [left; rewrite Hsame; auto | right; exact Hd].
+      * intros k y Hk Hy. apply set_nth_lookup in Hk as [(-> & -> & _)|(Hne & Hk)].
+        -- cbn [samp]. discriminate.
+        -- eauto.
+      * intros k y pk2 kk2 sl2 Hk Hy. apply set_nth_lookup in Hk as [(-> & -> & _)|(Hne & Hk)].
+        -- cbn [ak apc acanc samp] in *. inversion Hy; subst pk2 kk2 sl2. split.
+           ++ destruct sl; [discriminate|]. destruct (acanc x); [reflexivity | discriminate].
+           ++ intros c v Hcv. inversion Hcv; subst c v. exact Ev.
+        -- eauto.
+    + apply inv_setpc; auto; [nowaits|]. intros ? ? ? _ H4. exfalso. assert (H10 : (10 + e)%N = 4%N) by congruence. clear - H10. lia.
+Qed.
+
+Lemma step_inv s e : Inv s -> Inv (step s e).
+Proof.
+  intros HI. pose proof HI as (Hwf & Hlog & Hs & Hb & Hw).
+  destruct e as [mode ops hold block|pk kk pre sl|a|a|a|a|a|a]; cbn [step].
+  - (* client call *)
+    assert (HA : forall p c, ~ waits p -> p <> PRet 4 -> Inv (add_actor s {| ak := KClient ops hold block; apc := p; acanc := c; samp := None |})).
+    { intros p c H1 H2. apply inv_add; cbn [samp apc acanc]; auto. }
+    destruct mode as [|[|mode]].
+    + apply HA; [nowaits | discriminate].
+    + destruct (sheld s); [apply HA; [nowaits | discriminate] | apply do_sect_inv, HA; [nowaits | discriminate]].
+    + destruct (sheld s); [apply HA; [nowaits | discriminate] | apply do_sect_inv, HA; [nowaits | discriminate]].
+  - (* Wait call *)
+    destruct (N.leb 4 pk); [|destruct pre]; apply inv_add; cbn [samp apc acanc]; auto; try nowaits; discriminate.
+  - destruct (sheld s); [exact HI | now apply do_sect_inv].
+  - (* resume *)
+    destruct (nth_error (acts s) a) as [x|] eqn:G; [|exact HI].
+    destruct (apc x) eqn:Ep; try exact HI. destruct (ak x) as [ops hold block|pk kk sl] eqn:Ek; [|exact HI].
+    eapply inv_upd; eauto; cbn [apc acanc].
+    + unfold after_client. destruct block; [|nowaits]. destruct (samp x); [discriminate | nowaits].
+    + intros pk kk sl Hk. congruence.
+  - (* exit gate *)
+    destruct (nth_error (acts s) a) as [x|] eqn:G; [|exact HI].
+    destruct (apc x) eqn:Ep; try exact HI.
+    apply inv_setpc; auto; [|discriminate].
+    intros _. apply (Hb a x G). right. exact Ep.
+  - (* wake *)
+    destruct (nth_error (acts s) a) as [x|] eqn:G; [|exact HI].
+    destruct (apc x) eqn:Ep; try exact HI. destruct (samp x) as [[c v]|] eqn:Es; [|exact HI].
+    destruct (closed (sb s) c); [|exact HI].
+    destruct (ak x) as [ops hold block|pk kk sl] eqn:Ek.
+    + apply inv_setpc; auto; [nowaits | intros; congruence].
+    + apply inv_setpc; auto; [destruct (acanc x); nowaits|].
+      intros ? ? ? _ H4. destruct (acanc x); [reflexivity | discriminate].
+  - (* cancel *)
+    destruct (nth_error (acts s) a) as [x|] eqn:G; [|exact HI].
+    destruct (ak x) as [ops hold block|pk kk sl] eqn:Ek; [exact HI|].
+    eapply inv_upd; eauto.
+  - (* cancel wake *)
+    destruct (nth_error (acts s) a) as [x|] eqn:G; [|exact HI].
+    destruct (ak x) as [ops hold block|pk kk sl] eqn:Ek; [exact HI|].
+    destruct (apc x) eqn:Ep; try exact HI. destruct (acanc x) eqn:Ec; [|exact HI].
+    apply inv_setpc; auto; nowaits.
+Qed.
+
+Lemma init_inv : Inv init.
+Proof.
+  split; [exact I|]. split; [intros c k []|]. split; [|split].
+  - intros a x c v H. destruct a; discriminate.
+  - intros a x H. destruct a; discriminate.
+  - intros a x pk k sl H. destruct a; discriminate.
+Qed.
+
+Theorem run_inv es : Inv (run es).
+Proof. unfold run. apply fold_inv; [intros s e; apply step_inv | apply init_inv]. Qed.
+
+(* ------------------------------------------------------------------ *)
+(* monotone facts along runs: broadcast count, channel log, closed channels *)
+Definition Mono (s s' : st) : Prop :=
+  snb s <= snb s' /\ (forall p, In p (slog s) -> In p (slog s')) /\
+  (forall c, closed (sb s) c = true -> closed (sb s') c = true).
+
+Lemma mono_same s s' : sb s' = sb s -> snb s' = snb s -> slog s' = slog s -> Mono s s'.
+Proof. intros H1 H2 H3. unfold Mono. rewrite H1, H2, H3. repeat split; auto. Qed.
+
+Lemma mono_trans s1 s2 s3 : Mono s1 s2 -> Mono s2 s3 -> Mono s1 s3.
+Proof. intros (A1 & A2 & A3) (B1 & B2 & B3). split; [lia|]. split; auto. Qed.
+
+Lemma do_sect_mono s a : bc_wf (sb s) -> Mono s (do_sect s a).
+Proof.
+  intros Hwf. unfold do_sect.
+  destruct (nth_error (acts s) a) as [x|] eqn:G; [|now apply mono_same].
+  destruct (apc x) eqn:Ep; try now apply mono_same.
+  destruct (ak x) as [ops hold block|pk kk sl] eqn:Ek.
+  - set (o0 := {| ob := sb s; og := sg s; od := sdirty s; on := snb s; ol := slog s; osamp := samp x |}).
+    destruct (run_ops_mono ops o0 Hwf) as (H1 & H2 & H3 & _).
+    unfold Mono. cbn [sb snb slog]. auto.
+  - destruct (evalp pk kk (sg s)) as [| |e] eqn:Ev; try now apply mono_same.
+    pose proof (closed_mono_getch (sb s)) as Hcm.
+    destruct (getch (sb s)) as [b' c0] eqn:EG. cbn [fst] in *.
+    unfold Mono. cbn [sb snb slog]. auto.
+Qed.
+
+Lemma step_mono s e : bc_wf (sb s) -> Mono s (step s e).
+Proof.
+  intros Hwf. destruct e as [mode ops hold block|pk kk pre sl|a|a|a|a|a|a]; cbn [step].
+  - assert (HD : forall x, Mono s (do_sect (add_actor s x) (length (acts s)))).
+    { intros x. apply (do_sect_mono (add_actor s x)). exact Hwf. }
+    destruct mode as [|[|mode]]; [now apply mono_same | |]; destruct (sheld s); try (now apply mono_same); apply HD.
+  - destruct (N.leb 4 pk); [|destruct pre]; now apply mono_same.
+  - destruct (sheld s); [now apply mono_same | now apply do_sect_mono].
+  - destruct (nth_error (acts s) a) as [x|]; [|now apply mono_same].
+    destruct (apc x); try now apply mono_same. destruct (ak x); now apply mono_same.
+  - destruct (nth_error (acts s) a) as [x|]; [|now apply mono_same].
+    destruct (apc x); now apply mono_same.
+  - destruct (nth_error (acts s) a) as [x|]; [|now apply mono_same].
+    destruct (apc x); try now apply mono_same. destruct (samp x) as [[c v]|]; [|now apply mono_same].
+    destruct (closed (sb s) c); [|now apply mono_same]. destruct (ak x); now apply mono_same.
+  - destruct (nth_error (acts s) a) as [x|]; [|now apply mono_same].
+    destruct (ak x); now apply mono_same.
+  - destruct (nth_error (acts s) a) as [x|]; [|now apply mono_same].
+    destruct (ak x); try now apply mono_same. destruct (apc x); try now apply mono_same.
+    destruct (acanc x); now apply mono_same.
+Qed.
+
+Lemma steps_mono es : forall s, Inv s -> Mono s (fold_left step es s).
+Proof.
+  induction es as [|e es IH]; intros s HI; cbn [fold_left]; [now apply mono_same|].
+  eapply mono_trans; [apply step_mono; apply HI | apply IH, step_inv, HI].
+Qed.
+
+Lemma run_app es es' : run (es ++ es') = fold_left step es' (run es).
+Proof. unfold run. apply fold_left_app. Qed.
+
+Lemma run_mono es es' : Mono (run es) (run (es ++ es')).
+Proof. rewrite run_app. apply steps_mono, run_inv. Qed.
+
+(* ---- channel algebra ---- *)
+Lemma log_closed_iff es c k :
+  In (c, k) (slog (run es)) -> (closed (sb (run es)) c = true <-> k < snb (run es)).
+Proof.
+  intros Hin. destruct (run_inv es) as (Hwf & Hlog & _). destruct (Hlog c k Hin) as (Hc & Hk & Hcl & Hcu).
+  split; [|exact Hcl]. intros Hclosed.
+  destruct (Nat.eq_dec k (snb (run es))) as [He|Hne]; [|lia].
+  specialize (Hcu He). unfold closed in Hclosed. rewrite Hcu, Nat.eqb_refl in Hclosed.
+  rewrite andb_false_r in Hclosed. discriminate.
+Qed.
+
+Lemma first_later_broadcast_closes es es' c k :
+  In (c, k) (slog (run es)) -> snb (run es) < snb (run (es ++ es')) -> closed (sb (run (es ++ es'))) c = true.
+Proof.
+  intros Hin Hnb. destruct (run_mono es es') as (_ & Hl & _).
+  destruct (run_inv es) as (_ & Hlog & _). destruct (Hlog c k Hin) as (_ & Hk & _).
+  apply (log_closed_iff (es ++ es') c k); [now apply Hl | lia].
+Qed.
+
+Lemma open_until_next_broadcast es es' c k :
+  In (c, k) (slog (run es)) -> snb (run (es ++ es')) = k -> closed (sb (run (es ++ es'))) c = false.
+Proof.
+  intros Hin Hnb. destruct (run_mono es es') as (_ & Hl & _).
+  destruct (closed (sb (run (es ++ es'))) c) eqn:E; [|reflexivity].
+  apply (log_closed_iff (es ++ es') c k) in E; [lia | now apply Hl].
+Qed.
+
+Lemma closed_monotone es es' c : closed (sb (run es)) c = true -> closed (sb (run (es ++ es'))) c = true.
+Proof. destruct (run_mono es es') as (_ & _ & H). apply H. Qed.
+
+Lemma log_stamp_bounds es c k : In (c, k) (slog (run es)) -> c < nxt (sb (run es)) /\ k <= snb (run es).
+Proof. intros Hin. destruct (run_inv es) as (_ & Hlog & _). destruct (Hlog c k Hin) as (Hc & Hk & _). auto. Qed.
+
+(* ------------------------------------------------------------------ *)
+(* what one step does to one actor *)
+Lemma pc_eq_dec (p q : pc) : {p = q} + {p <> q}.
+Proof. decide equality. apply N.eq_dec. Qed.
+
+Lemma do_sect_actor s a k x' :
+  nth_error (acts (do_sect s a)) k = Some x' ->
+  exists x, nth_error (acts s) k = Some x /\ ak x' = ak x /\ acanc x' = acanc x /\ (k <> a -> x' = x).
+Proof.
+  unfold do_sect. intros H.
+  destruct (nth_error (acts s) a) as [xa|] eqn:G; [|exists x'; auto].
+  destruct (apc xa) eqn:Ep; try (exists x'; auto; fail).
+  assert (HU : forall xn h, nth_error (acts (upd_actor s a xn h)) k = Some x' -> ak xn = ak xa -> acanc xn = acanc xa ->
+               exists x, nth_error (acts s) k = Some x /\ ak x' = ak x /\ acanc x' = acanc x /\ (k <> a -> x' = x)).
+  { intros xn h Hk H1 H2. unfold upd_actor in Hk. cbn [acts] in Hk.
+    apply set_nth_lookup in Hk as [(-> & -> & _)|(Hne & Hk)]; [exists xa; repeat split; auto; congruence | exists x'; auto]. }
+  destruct (ak xa) as [ops hold block|pk kk sl] eqn:Ek.
+  - cbn [acts] in H. apply set_nth_lookup in H as [(-> & -> & _)|(Hne & Hk)]; [|exists x'; auto].
+    exists xa. cbn [ak acanc]. repeat split; auto; congruence.
+  - destruct (evalp pk kk (sg s)).
+    + unfold setpc in H. eapply HU; eauto.
+    + destruct (getch (sb s)) as [b' c0]. cbn [acts] in H.
+      apply set_nth_lookup in H as [(-> & -> & _)|(Hne & Hk)]; [|exists x'; auto].
+      exists xa. cbn [ak acanc]. repeat split; auto; congruence.
+    + unfold setpc in H. eapply HU; eauto.
+Qed.
+
+Definition new_actor (e : ev) (x' : actor) : Prop :=
+  match e with
+  | CallClient _ ops h bl => ak x' = KClient ops h bl /\ acanc x' = false
+  | CallWait pk kk pre sl => ak x' = KWait pk kk sl /\ (acanc x' = true -> pre = true) /\
+                             (apc x' = PGate \/ apc x' = PRet 8 \/ apc x' = PRet 4) /\
+                             (apc x' = PRet 8 -> N.leb 4 pk = true) /\ (N.leb 4 pk = false -> acanc x' = pre)
+  | _ => False
+  end.
+
+Lemma add_actor_lookup s x0 k y :
+  nth_error (acts (add_actor s x0)) k = Some y ->
+  nth_error (acts s) k = Some y \/ (nth_error (acts s) k = None /\ y = x0).
+Proof.
+  unfold add_actor. cbn [acts]. intros H.
+  destruct (Nat.lt_ge_cases k (length (acts s))) as [Hl|Hl].
+  - left. now rewrite nth_error_app1 in H.
+  - right. split; [now apply nth_error_None|].
+    apply nth_error_app_inv in H as [H| ->]; [|reflexivity]. apply nth_error_nth_len in H. lia.
+Qed.
+
+Lemma step_actor s e k x' :
+  nth_error (acts (step s e)) k = Some x' ->
+  (exists x, nth_error (acts s) k = Some x /\ ak x' = ak x /\ (acanc x' = acanc x \/ e = CancelCtx k)) \/
+  (nth_error (acts s) k = None /\ new_actor e x').
+Proof.
+  assert (HS : forall y, nth_error (acts s) k = Some y -> y = x' ->
+            exists x, nth_error (acts s) k = Some x /\ ak x' = ak x /\ (acanc x' = acanc x \/ e = CancelCtx k)).
+  { intros y Hy ->. exists x'. auto. }
+  assert (HU : forall a xa xn h, nth_error (acts s) a = Some xa -> nth_error (acts (upd_actor s a xn h)) k = Some x' ->
+               ak xn = ak xa -> (acanc xn = acanc xa \/ e = CancelCtx a) ->
+               exists x, nth_error (acts s) k = Some x /\ ak x' = ak x /\ (acanc x' = acanc x \/ e = CancelCtx k)).
+  { intros a xa xn h G Hk H1 H2. unfold upd_actor in Hk. cbn [acts] in Hk.
+    apply set_nth_lookup in Hk as [(-> & -> & _)|(Hne & Hk)]; [exists xa; auto | exists x'; auto]. }
+  destruct e as [mode ops hold block|pk kk pre sl|a|a|a|a|a|a]; cbn [step]; intros H.
+  - (* client call *)
+    assert (HA : forall p, nth_error (acts (add_actor s {| ak := KClient ops hold block; apc := p; acanc := false; samp := None |})) k = Some x' ->
+                 (exists x, nth_error (acts s) k = Some x /\ ak x' = ak x /\ (acanc x' = acanc x \/ CallClient mode ops hold block = CancelCtx k)) \/
+                 (nth_error (acts s) k = None /\ new_actor (CallClient mode ops hold block) x')).
+    { intros p Hk. apply add_actor_lookup in Hk as [Hk|(Hk & ->)]; [left; exists x'; auto | right; cbn; auto]. }
+    assert (HD : forall p, nth_error (acts (do_sect (add_actor s {| ak := KClient ops hold block; apc := p; acanc := false; samp := None |}) (length (acts s)))) k = Some x' ->
+                 (exists x, nth_error (acts s) k = Some x /\ ak x' = ak x /\ (acanc x' = acanc x \/ CallClient mode ops hold block = CancelCtx k)) \/
+                 (nth_error (acts s) k = None /\ new_actor (CallClient mode ops hold block) x')).
+    { intros p Hk. apply do_sect_actor in Hk as (x1 & Hk & E1 & E2 & _).
+      apply add_actor_lookup in Hk as [Hk|(Hk & ->)]; [left; exists x1; auto | right; cbn; auto]. }
+    destruct mode as [|[|mode]]; [eapply HA; eauto | |]; destruct (sheld s); eauto.
+  - (* Wait call *)
+    destruct (N.leb 4 pk) eqn:E4; [|destruct pre];
+      (apply add_actor_lookup in H as [H|(H & ->)]; [left; eauto | right; split; [exact H|]; cbn; repeat split; auto; try discriminate; try congruence]).
+  - left. destruct (sheld s); [eauto|]. apply do_sect_actor in H as (x1 & Hk & E1 & E2 & _). exists x1. auto.
+  - left. destruct (nth_error (acts s) a) as [xa|] eqn:G; [|eauto].
+    destruct (apc xa); eauto. destruct (ak xa) eqn:Ek; eauto; try (eapply HU; eauto).
+  - left. destruct (nth_error (acts s) a) as [xa|] eqn:G; [|eauto].
+    destruct (apc xa); eauto; unfold setpc in H; try (eapply HU; eauto).
+  - left. destruct (nth_error (acts s) a) as [xa|] eqn:G; [|eauto].
+    destruct (apc xa); eauto. destruct (samp xa) as [[c v]|]; eauto. destruct (closed (sb s) c); eauto.
+    destruct (ak xa) eqn:Ek; unfold setpc in H; try (eapply HU; eauto).
+  - left. destruct (nth_error (acts s) a) as [xa|] eqn:G; [|eauto].
+    destruct (ak xa) eqn:Ek; eauto; try (eapply HU; eauto).
+  - left. destruct (nth_error (acts s) a) as [xa|] eqn:G; [|eauto].
+    destruct (ak xa) eqn:Ek; eauto. destruct (apc xa); eauto. destruct (acanc xa); eauto;
+    unfold setpc in H; try (eapply HU; eauto).
+Qed.
+
+(* ------------------------------------------------------------------ *)
+(* Wait: how a call comes to return nil or a predicate error *)
+Definition ret_reason (pk kk g r : N) : Prop :=
+  (evalp pk kk g = PTrue /\ r = 3%N) \/ (exists e, evalp pk kk g = PErr e /\ r = (10 + e)%N).
+
+Lemma do_sect_ret s a k x x' pk kk sl r :
+  nth_error (acts s) k = Some x -> nth_error (acts (do_sect s a)) k = Some x' ->
+  ak x = KWait pk kk sl -> apc x' = PRet r -> apc x <> PRet r -> r <> 4%N ->
+  k = a /\ sg (do_sect s a) = sg s /\ ret_reason pk kk (sg s) r.
+Proof.
+  unfold do_sect. intros Hx H Hk Hr Hnr Hr4.
+  destruct (nth_error (acts s) a) as [xa|] eqn:G; [|congruence].
+  destruct (apc xa) eqn:Ep; try congruence.
+  destruct (ak xa) as [ops hold block|pk2 kk2 sl2] eqn:Ek.
+  - cbn [acts] in H. apply set_nth_lookup in H as [(-> & -> & _)|(Hne & H)]; [congruence | congruence].
+  - destruct (evalp pk2 kk2 (sg s)) as [| |e] eqn:Ev.
+    + unfold setpc, upd_actor in *. cbn [acts sg] in *.
+      apply set_nth_lookup in H as [(-> & -> & _)|(Hne & H)]; [|congruence].
+      cbn [apc] in Hr. assert (xa = x) by congruence. subst xa. rewrite Hk in Ek. inversion Ek; subst pk2 kk2 sl2.
+      inversion Hr; subst r. split; [reflexivity|]. split; [reflexivity|]. left. auto.
+    + destruct (getch (sb s)) as [b' c0]. cbn [acts sg] in *.
+      apply set_nth_lookup in H as [(-> & -> & _)|(Hne & H)]; [|congruence].
+      cbn [apc] in Hr. destruct sl2; [discriminate|]. destruct (acanc xa); [|discriminate]. inversion Hr. congruence.
+    + unfold setpc, upd_actor in *. cbn [acts sg] in *.
+      apply set_nth_lookup in H as [(-> & -> & _)|(Hne & H)]; [|congruence].
+      cbn [apc] in Hr. assert (xa = x) by congruence. subst xa. rewrite Hk in Ek. inversion Ek; subst pk2 kk2 sl2.
+      inversion Hr; subst r. split; [reflexivity|]. split; [reflexivity|]. right. exists e. auto.
+Qed.
+
+Lemma step_wait_ret s e k x x' pk kk sl r :
+  nth_error (acts s) k = Some x -> nth_error (acts (step s e)) k = Some x' ->
+  ak x = KWait pk kk sl -> apc x' = PRet r -> apc x <> PRet r -> r <> 4%N ->
+  e = Sect k /\ sg (step s e) = sg s /\ ret_reason pk kk (sg s) r.
+Proof.
+  intros Hx H Hk Hr Hnr Hr4.
+  assert (HU : forall a xa xn h, nth_error (acts s) a = Some xa ->
+               nth_error (acts (upd_actor s a xn h)) k = Some x' ->
+               (forall r0, apc xn = PRet r0 -> ak xa = KWait pk kk sl -> r0 = 4%N) -> False).
+  { intros a xa xn h G Hl Hp. unfold upd_actor in Hl. cbn [acts] in Hl.
+    apply set_nth_lookup in Hl as [(-> & -> & _)|(Hne & Hl)]; [|congruence].
+    assert (xa = x) by congruence. subst xa. apply Hr4. eapply Hp; eauto. }
+  destruct e as [mode ops hold block|pk2 kk2 pre sl2|a|a|a|a|a|a]; cbn [step] in H.
+  - (* client call: the new callback is another actor *)
+    exfalso.
+    assert (HA : forall p, nth_error (acts (add_actor s {| ak := KClient ops hold block; apc := p; acanc := false; samp := None |})) k = Some x' -> False).
+    { intros p Hl. apply add_actor_lookup in Hl as [Hl|(Hl & _)]; congruence. }
+    assert (HD : forall p, nth_error (acts (do_sect (add_actor s {| ak := KClient ops hold block; apc := p; acanc := false; samp := None |}) (length (acts s)))) k = Some x' -> False).
+    { intros p Hl.
+      assert (Hx1 : nth_error (acts (add_actor s {| ak := KClient ops hold block; apc := p; acanc := false; samp := None |})) k = Some x).
+      { unfold add_actor. cbn [acts]. rewrite nth_error_app1; [exact Hx | eapply nth_error_nth_len; eauto]. }
+      destruct (do_sect_ret _ _ _ _ _ _ _ _ _ Hx1 Hl Hk Hr Hnr Hr4) as (Hka & _).
+      apply nth_error_nth_len in Hx. lia. }
+    destruct mode as [|[|mode]]; [eapply HA; eauto | |]; destruct (sheld s); eauto.
+  - exfalso. destruct (N.leb 4 pk2); [|destruct pre]; apply add_actor_lookup in H as [H|(H & _)]; congruence.
+  - destruct (sheld s) eqn:Eh; [congruence|].
+    destruct (do_sect_ret _ _ _ _ _ _ _ _ _ Hx H Hk Hr Hnr Hr4) as (-> & Hg & Hrr).
+    cbn [step]. rewrite Eh. auto.
+  - exfalso. destruct (nth_error (acts s) a) as [xa|] eqn:G; [|congruence].
+    destruct (apc xa); try congruence. destruct (ak xa) eqn:Ek; try congruence.
+    eapply HU; eauto. intros r0 _ Hw. congruence.
+  - exfalso. destruct (nth_error (acts s) a) as [xa|] eqn:G; [|congruence].
+    destruct (apc xa); try congruence. unfold setpc in H. eapply HU; eauto. cbn [apc]. intros r0 Hp. discriminate.
+  - exfalso. destruct (nth_error (acts s) a) as [xa|] eqn:G; [|congruence].
+    destruct (apc xa); try congruence. destruct (samp xa) as [[c v]|]; try congruence.
+    destruct (closed (sb s) c); try congruence.
+    destruct (ak xa) eqn:Ek; unfold setpc in H; eapply HU; eauto; cbn [apc].
+    + intros r0 _ Hw. congruence.
+    + intros r0 Hp _. destruct (acanc xa); [congruence | discriminate].
+  - exfalso. destruct (nth_error (acts s) a) as [xa|] eqn:G; [|congruence].
+    destruct (ak xa) eqn:Ek; try congruence.
+    unfold upd_actor in H. cbn [acts] in H.
+    apply set_nth_lookup in H as [(-> & -> & _)|(Hne & H)]; [|congruence]. cbn [apc] in Hr. congruence.
+  - exfalso. destruct (nth_error (acts s) a) as [xa|] eqn:G; [|congruence].
+    destruct (ak xa) eqn:Ek; try congruence. destruct (apc xa); try congruence. destruct (acanc xa); try congruence.
+    unfold setpc in H. eapply HU; eauto. cbn [apc]. intros r0 Hp _. congruence.
+Qed.
+
+Lemma run_snoc es e : run (es ++ [e]) = step (run es) e.
+Proof. rewrite run_app. reflexivity. Qed.
+
+(* a Wait call that has returned r (nil: 3, predicate error e: 10+e) did so in a step [Sect a] taken in a state whose
+   guarded value made the predicate return true / that error; the step did not change the value *)
+Lemma wait_ret_history es : forall a x pk kk sl r,
+  nth_error (acts (run es)) a = Some x -> ak x = KWait pk kk sl -> apc x = PRet r -> (r <> 4 /\ r <> 8)%N ->
+  exists es1 es2, es = es1 ++ Sect a :: es2 /\ sg (run (es1 ++ [Sect a])) = sg (run es1) /\
+                  ret_reason pk kk (sg (run es1)) r.
+Proof.
+  induction es as [|e es IH] using rev_ind; intros a x pk kk sl r Hx Hk Hr Hrr.
+  - destruct a; discriminate.
+  - rewrite run_snoc in Hx. destruct (step_actor _ _ _ _ Hx) as [(x0 & Hx0 & Hak & _)|(Hnone & Hnew)].
+    + rewrite Hk in Hak. symmetry in Hak.
+      destruct (pc_eq_dec (apc x0) (PRet r)) as [Heq|Hne].
+      * destruct (IH a x0 pk kk sl r Hx0 Hak Heq Hrr) as (es1 & es2 & -> & Hg & Hre).
+        exists es1, (es2 ++ [e]). split; [now rewrite <- app_assoc | auto].
+      * assert (Hr4 : r <> 4%N) by lia.
+        destruct (step_wait_ret _ _ _ _ _ _ _ _ _ Hx0 Hx Hak Hr Hne Hr4) as (-> & Hg & Hre).
+        exists es, []. split; [reflexivity|]. split; [now rewrite run_snoc | exact Hre].
+    + exfalso. destruct e; cbn [new_actor] in Hnew; try contradiction.
+      * destruct Hnew as (Hak & _). congruence.
+      * destruct Hnew as (_ & _ & [Hp|[Hp|Hp]] & _); rewrite Hp in Hr; try discriminate; inversion Hr; lia.
+Qed.
+
+Lemma wait_nil_history es a x pk kk sl :
+  nth_error (acts (run es)) a = Some x -> ak x = KWait pk kk sl -> apc x = PRet 3 ->
+  exists es1 es2, es = es1 ++ Sect a :: es2 /\ evalp pk kk (sg (run es1)) = PTrue /\
+                  sg (run (es1 ++ [Sect a])) = sg (run es1).
+Proof.
+  intros Hx Hk Hr. assert (Hrr : (3 <> 4 /\ 3 <> 8)%N) by lia.
+  destruct (wait_ret_history es a x pk kk sl 3%N Hx Hk Hr Hrr) as (es1 & es2 & He & Hg & Hre).
+  exists es1, es2. split; [exact He|]. split; [|exact Hg].
+  destruct Hre as [(Hp & _)|(e & _ & Hp)]; [exact Hp | lia].
+Qed.
+
+Lemma wait_err_history es a x pk kk sl e :
+  nth_error (acts (run es)) a = Some x -> ak x = KWait pk kk sl -> apc x = PRet (10 + e) ->
+  exists es1 es2, es = es1 ++ Sect a :: es2 /\ evalp pk kk (sg (run es1)) = PErr e /\
+                  sg (run (es1 ++ [Sect a])) = sg (run es1).
+Proof.
+  intros Hx Hk Hr. assert (Hrr : ((10 + e) <> 4 /\ (10 + e) <> 8)%N) by lia.
+  destruct (wait_ret_history es a x pk kk sl (10 + e)%N Hx Hk Hr Hrr) as (es1 & es2 & He & Hg & Hre).
+  exists es1, es2. split; [exact He|]. split; [|exact Hg].
+  destruct Hre as [(_ & Hp)|(e' & Hp & He')]; [lia|]. assert (e' = e) by lia. now subst e'.
+Qed.
+
+(* and in the other direction: the section of a Wait call at its gate returns exactly what the predicate says *)
+Lemma wait_section_result s a x pk kk sl :
+  nth_error (acts s) a = Some x -> ak x = KWait pk kk sl -> apc x = PGate -> sheld s = false ->
+  exists x', nth_error (acts (step s (Sect a))) a = Some x' /\
+    match evalp pk kk (sg s) with
+    | PTrue => apc x' = PRet 3
+    | PErr e => apc x' = PRet (10 + e)
+    | PFalse => apc x' = PExit \/ apc x' = PBlocked \/ (apc x' = PRet 4 /\ acanc x = true)
+    end.
+Proof.
+  intros Hx Hk Hp Hh. cbn [step]. rewrite Hh. unfold do_sect. rewrite Hx, Hp, Hk.
+  pose proof (nth_error_nth_len _ _ _ Hx) as Hl.
+  destruct (evalp pk kk (sg s)) as [| |e].
+  - unfold setpc, upd_actor. cbn [acts]. rewrite nth_error_set_nth_same by exact Hl. eexists. split; [reflexivity|]. reflexivity.
+  - destruct (getch (sb s)) as [b' c0]. cbn [acts]. rewrite nth_error_set_nth_same by exact Hl. eexists. split; [reflexivity|].
+    cbn [apc]. destruct sl; [auto|]. destruct (acanc x); auto.
+  - unfold setpc, upd_actor. cbn [acts]. rewrite nth_error_set_nth_same by exact Hl. eexists. split; [reflexivity|]. reflexivity.
+Qed.
+
+(* Canceled only if cancelled: the flag, and where the flag comes from *)
+Lemma wait_canceled_flag es a x pk kk sl :
+  nth_error (acts (run es)) a = Some x -> ak x = KWait pk kk sl -> apc x = PRet 4 -> acanc x = true.
+Proof. intros Hx Hk Hr. destruct (run_inv es) as (_ & _ & _ & _ & Hw). now apply (Hw a x pk kk sl Hx Hk). Qed.
+
+Lemma cancel_provenance es : forall a x,
+  nth_error (acts (run es)) a = Some x -> acanc x = true ->
+  In (CancelCtx a) es \/ exists pk kk sl es1 es2, es = es1 ++ CallWait pk kk true sl :: es2 /\ length (acts (run es1)) = a.
+Proof.
+  induction es as [|e es IH] using rev_ind; intros a x Hx Hc.
+  - destruct a; discriminate.
+  - rewrite run_snoc in Hx. destruct (step_actor _ _ _ _ Hx) as [(x0 & Hx0 & _ & [Hsame| ->])|(Hnone & Hnew)].
+    + rewrite Hc in Hsame. destruct (IH a x0 Hx0 (eq_sym Hsame)) as [Hin|(pk & kk & sl & es1 & es2 & -> & Hl)].
+      * left. apply in_or_app. now left.
+      * right. exists pk, kk, sl, es1, (es2 ++ [e]). split; [now rewrite <- app_assoc | exact Hl].
+    + left. apply in_or_app. right. now left.
+    + destruct e; cbn [new_actor] in Hnew; try contradiction.
+      * destruct Hnew as (_ & Hf). congruence.
+      * destruct Hnew as (_ & Hpre & _). specialize (Hpre Hc). subst pre.
+        right. exists pk, k, slow, es, []. split; [reflexivity|].
+        apply nth_error_None in Hnone.
+        assert (Hlen : a < length (acts (step (run es) (CallWait pk k true slow)))) by (eapply nth_error_nth_len; eauto).
+        cbn [step] in Hlen. destruct (N.leb 4 pk); unfold add_actor in Hlen; cbn [acts] in Hlen; rewrite app_length in Hlen; cbn in Hlen; lia.
+Qed.
+
+(* ------------------------------------------------------------------ *)
+(* no lost wake-up *)
+Lemma blocked_sampled_state es a x c v :
+  nth_error (acts (run es)) a = Some x -> samp x = Some (c, v) ->
+  c < nxt (sb (run es)) /\ (closed (sb (run es)) c = true \/ sg (run es) = v \/ sdirty (run es) = true).
+Proof. intros Hx Hs. destruct (run_inv es) as (_ & _ & H & _). exact (H a x c v Hx Hs). Qed.
+
+Lemma blocked_has_sample es a x :
+  nth_error (acts (run es)) a = Some x -> apc x = PBlocked \/ apc x = PExit -> exists c v, samp x = Some (c, v).
+Proof.
+  intros Hx Hp. destruct (run_inv es) as (_ & _ & _ & H & _). specialize (H a x Hx Hp).
+  destruct (samp x) as [[c v]|]; [eauto | congruence].
+Qed.
+
+Lemma wait_sample_pred_false es a x pk kk sl c v :
+  nth_error (acts (run es)) a = Some x -> ak x = KWait pk kk sl -> samp x = Some (c, v) -> evalp pk kk v = PFalse.
+Proof. intros Hx Hk Hs. destruct (run_inv es) as (_ & _ & _ & _ & H). destruct (H a x pk kk sl Hx Hk) as [_ H2]. eauto. Qed.
+
+(* client discipline *)
+Definition DInv (s : st) : Prop :=
+  sdirty s = false /\
+  forall a x ops h bl, nth_error (acts s) a = Some x -> ak x = KClient ops h bl -> ops_dirty false ops = false.
+
+Lemma do_sect_dirty s a : DInv s -> sdirty (do_sect s a) = false.
+Proof.
+  intros (Hd & Hc). unfold do_sect.
+  destruct (nth_error (acts s) a) as [x|] eqn:G; [|exact Hd].
+  destruct (apc x); try exact Hd.
+  destruct (ak x) as [ops hold block|pk kk sl] eqn:Ek.
+  - cbn [sdirty]. rewrite run_ops_dirty. cbn [od]. rewrite Hd. eapply Hc; eauto.
+  - destruct (evalp pk kk (sg s)); try exact Hd. destruct (getch (sb s)). exact Hd.
+Qed.
+
+Lemma step_dinv s e : ev_disc e = true -> DInv s -> DInv (step s e).
+Proof.
+  intros He HD. pose proof HD as (Hd & Hc).
+  assert (H2 : forall a x ops h bl, nth_error (acts (step s e)) a = Some x -> ak x = KClient ops h bl -> ops_dirty false ops = false).
+  { intros a x ops h bl Hx Hk. destruct (step_actor _ _ _ _ Hx) as [(x0 & Hx0 & Hak & _)|(_ & Hnew)].
+    - rewrite Hk in Hak. eauto.
+    - destruct e; cbn [new_actor] in Hnew; try contradiction.
+      + destruct Hnew as (Hak & _). rewrite Hk in Hak. inversion Hak; subst.
+        cbn [ev_disc] in He. now destruct (ops_dirty false ops0).
+      + destruct Hnew as (Hak & _). congruence. }
+  split; [|exact H2].
+  destruct e as [mode ops hold block|pk kk pre sl|a|a|a|a|a|a]; cbn [step].
+  - assert (HA : forall p, DInv (add_actor s {| ak := KClient ops hold block; apc := p; acanc := false; samp := None |})).
+    { intros p. split; [exact Hd|]. intros a x ops1 h1 bl1 Hx Hk.
+      apply add_actor_lookup in Hx as [Hx|(_ & ->)]; [eauto|].
+      cbn [ak] in Hk. inversion Hk; subst. cbn [ev_disc] in He. now destruct (ops_dirty false ops1). }
+    destruct mode as [|[|mode]]; [exact Hd| |]; destruct (sheld s); try exact Hd; apply do_sect_dirty, HA.
+  - destruct (N.leb 4 pk); [|destruct pre]; exact Hd.
+  - destruct (sheld s); [exact Hd | now apply do_sect_dirty].
+  - destruct (nth_error (acts s) a) as [x|]; [|exact Hd]. destruct (apc x); try exact Hd. destruct (ak x); exact Hd.
+  - destruct (nth_error (acts s) a) as [x|]; [|exact Hd]. destruct (apc x); exact Hd.
+  - destruct (nth_error (acts s) a) as [x|]; [|exact Hd]. destruct (apc x); try exact Hd.
+    destruct (samp x) as [[c v]|]; [|exact Hd]. destruct (closed (sb s) c); [|exact Hd]. destruct (ak x); exact Hd.
+  - destruct (nth_error (acts s) a) as [x|]; [|exact Hd]. destruct (ak x); exact Hd.
+  - destruct (nth_error (acts s) a) as [x|]; [|exact Hd]. destruct (ak x); try exact Hd. destruct (apc x); try exact Hd.
+    destruct (acanc x); exact Hd.
+Qed.
+
+Lemma steps_dinv es : forall s, DInv s -> forallb ev_disc es = true -> DInv (fold_left step es s).
+Proof.
+  induction es as [|e es IH]; intros s HD Hes; cbn [fold_left]; [exact HD|].
+  cbn [forallb] in Hes. apply andb_true_iff in Hes as [He Hes]. apply IH; [now apply step_dinv | exact Hes].
+Qed.
+
+Lemma disc_not_dirty es : all_disc es = true -> sdirty (run es) = false.
+Proof.
+  intros H. unfold run. apply (steps_dinv es init); [|exact H].
+  split; [reflexivity|]. intros a x ops h bl Hx. destruct a; discriminate.
+Qed.
+
+Lemma disc_blocked_sampled_state es a x c v :
+  all_disc es = true -> nth_error (acts (run es)) a = Some x -> samp x = Some (c, v) ->
+  closed (sb (run es)) c = true \/ sg (run es) = v.
+Proof.
+  intros Hd Hx Hs. destruct (blocked_sampled_state es a x c v Hx Hs) as (_ & [H|[H|H]]); auto.
+  rewrite (disc_not_dirty es Hd) in H. discriminate.
+Qed.
+
+Lemma quiescent_actor s a x :
+  quiescent s = true -> nth_error (acts s) a = Some x ->
+  at_gate x = false /\
+  (apc x = PBlocked -> forall c v, samp x = Some (c, v) -> closed (sb s) c = false /\ (is_wait x = true -> acanc x = false)).
+Proof.
+  unfold quiescent. rewrite forallb_forall. intros H G. specialize (H x (nth_error_In _ _ G)).
+  apply andb_true_iff in H as [H1 H2]. split; [now destruct (at_gate x)|].
+  intros Hp c v Hs. rewrite Hp, Hs in H2. apply andb_true_iff in H2 as [H2 H3].
+  split; [now destruct (closed (sb s) c)|]. intros Hw. rewrite Hw in H3. now destruct (acanc x).
+Qed.
+
+Lemma quiescent_blocked_waiter_pred_false es a x pk kk sl :
+  all_disc es = true -> quiescent (run es) = true ->
+  nth_error (acts (run es)) a = Some x -> ak x = KWait pk kk sl -> apc x = PBlocked ->
+  evalp pk kk (sg (run es)) = PFalse.
+Proof.
+  intros Hd Hq Hx Hk Hp.
+  destruct (blocked_has_sample es a x Hx (or_introl Hp)) as (c & v & Hs).
+  destruct (quiescent_actor _ _ _ Hq Hx) as [_ H]. destruct (H Hp c v Hs) as [Hop _].
+  destruct (disc_blocked_sampled_state es a x c v Hd Hx Hs) as [Hc|Hg]; [congruence|].
+  rewrite Hg. eapply wait_sample_pred_false; eauto.
+Qed.
+
+(* a cancelled Wait call is not left blocked at quiescence *)
+Lemma quiescent_cancelled_not_blocked es a x pk kk sl :
+  quiescent (run es) = true -> nth_error (acts (run es)) a = Some x -> ak x = KWait pk kk sl -> acanc x = true ->
+  apc x <> PBlocked.
+Proof.
+  intros Hq Hx Hk Hc Hp.
+  destruct (blocked_has_sample es a x Hx (or_introl Hp)) as (c & v & Hs).
+  destruct (quiescent_actor _ _ _ Hq Hx) as [_ H]. destruct (H Hp c v Hs) as [_ Hw].
+  unfold is_wait in Hw. rewrite Hk in Hw. specialize (Hw eq_refl). congruence.
+Qed.
+
+(* ================================================================== *)
+(* The monitors of Spec.v accept the model: simulation between monitor state and model state *)
+
+Definition quiet (e : ev) : bool := match e with Wake _ | CancelWake _ => true | _ => false end.
+
+Lemma settle_fold s : settle s = fold_left step (map Wake (seq 0 (length (acts s)))) s.
+Proof.
+  unfold settle. generalize (seq 0 (length (acts s))) as l. generalize s as s0.
+  intros s0 l. revert s0. induction l as [|a l IH]; intros s0; cbn [fold_left map]; [reflexivity | apply IH].
+Qed.
+
+Lemma quiet_wakes l : forallb quiet (map Wake l) = true.
+Proof. induction l; cbn; auto. Qed.
+
+Inductive hdec (s : st) : list N -> ev -> Prop :=
+| HD_client mode hold block ops h bl :
+    bit hold = Some h -> bit block = Some bl -> (N.ltb mode 3 && negb (N.eqb mode 2 && bl) = true) ->
+    hdec s (1 :: mode :: hold :: block :: ops)%N (CallClient (N.to_nat mode) (map dec_op ops) h bl)
+| HD_wait pk k pre slow p sl :
+    bit pre = Some p -> bit slow = Some sl -> N.ltb pk 6 = true -> hdec s [2; pk; k; pre; slow]%N (CallWait pk k p sl)
+| HD_sect i x : nth_error (acts s) (N.to_nat i) = Some x -> apc x = PGate -> sheld s = false -> hdec s [3; i]%N (Sect (N.to_nat i))
+| HD_cancel i x pk k sl : nth_error (acts s) (N.to_nat i) = Some x -> ak x = KWait pk k sl -> N.ltb pk 4 = true ->
+    hdec s [4; i]%N (CancelCtx (N.to_nat i))
+| HD_resume i x : nth_error (acts s) (N.to_nat i) = Some x -> apc x = PHold -> hdec s [5; i]%N (Resume (N.to_nat i))
+| HD_exit i x : nth_error (acts s) (N.to_nat i) = Some x -> apc x = PExit -> hdec s [6; i]%N (ExitGate (N.to_nat i)).
+
+Opaque step.
+Lemma hstep_decomp s e s' o : hstep s e = Some (s', o) ->
+  exists e0 ws, hdec s e e0 /\ forallb quiet ws = true /\ s' = fold_left step ws (step s e0) /\ o = obs s'.
+Proof.
+  unfold hstep. intros H.
+  repeat (match type of H with context [match ?t with _ => _ end] => destruct t eqn:?; try discriminate H end).
+  all: injection H as Hs Ho; subst o; subst s'; try rewrite settle_fold.
+  all: match goal with
+       | |- context [step ?s0 (CallClient ?a ?b ?c ?d)] =>
+         exists (CallClient a b c d); eexists; split; [econstructor; eauto|]; split; [apply quiet_wakes|]; split; reflexivity
+       | |- context [step ?s0 (CallWait ?a ?b ?c ?d)] =>
+         exists (CallWait a b c d), []; split; [econstructor; eauto|]; split; [reflexivity|]; split; reflexivity
+       | |- context [step ?s0 (Sect ?a)] =>
+         exists (Sect a); eexists; split; [econstructor; eauto|]; split; [apply quiet_wakes|]; split; reflexivity
+       | |- context [step ?s0 (CancelCtx ?a)] =>
+         exists (CancelCtx a), [CancelWake a]; split; [econstructor; eauto|]; split; [reflexivity|]; split; reflexivity
+       | |- context [step ?s0 (Resume ?a)] =>
+         exists (Resume a); eexists; split; [econstructor; eauto|]; split; [apply quiet_wakes|]; split; reflexivity
+       | |- context [fold_left step ?l (step (step ?s0 (ExitGate ?a)) (CancelWake ?a))] =>
+         exists (ExitGate a), (CancelWake a :: l); split; [econstructor; eauto|]; split; [cbn [forallb quiet]; apply quiet_wakes|]; split; reflexivity
+       end.
+Qed.
+Transparent step.
+
+(* ---- quiet steps ---- *)
+Definition core_eq (s s' : st) : Prop :=
+  sb s' = sb s /\ sg s' = sg s /\ sdirty s' = sdirty s /\ snb s' = snb s /\ slog s' = slog s /\
+  length (acts s') = length (acts s).
+
+Lemma core_eq_refl s : core_eq s s.
+Proof. unfold core_eq. repeat split; reflexivity. Qed.
+
+Lemma core_eq_trans s1 s2 s3 : core_eq s1 s2 -> core_eq s2 s3 -> core_eq s1 s3.
+Proof. unfold core_eq. intros (A1 & A2 & A3 & A4 & A5 & A6) (B1 & B2 & B3 & B4 & B5 & B6). repeat split; congruence. Qed.
+
+Lemma core_eq_upd s a x h : core_eq s (upd_actor s a x h).
+Proof. unfold core_eq, upd_actor. cbn [sb sg sdirty snb slog acts]. rewrite length_set_nth. repeat split; reflexivity. Qed.
+
+(* how a quiet step changes one actor: not at all, or a blocked actor moves on *)
+Definition moved (x x' : actor) : Prop :=
+  ak x' = ak x /\ acanc x' = acanc x /\ samp x' = samp x /\
+  (x' = x \/ (apc x = PBlocked /\
+              match ak x with
+              | KClient _ _ _ => apc x' = PRet 3
+              | KWait _ _ _ => apc x' = PRet 4 \/ apc x' = PGate
+              end)).
+
+Lemma moved_refl x : moved x x.
+Proof. unfold moved. auto. Qed.
+
+Lemma moved_trans x1 x2 x3 : moved x1 x2 -> moved x2 x3 -> moved x1 x3.
+Proof.
+  intros (A1 & A2 & A3 & A4) (B1 & B2 & B3 & B4). unfold moved.
+  split; [congruence|]. split; [congruence|]. split; [congruence|].
+  destruct A4 as [->|(Ab & Am)]; [exact B4|].
+  destruct B4 as [->|(Bb & _)]; [right; auto|].
+  exfalso. destruct (ak x1); [congruence | destruct Am; congruence].
+Qed.
+
+Lemma quiet_step s e : quiet e = true ->
+  core_eq s (step s e) /\
+  forall k x', nth_error (acts (step s e)) k = Some x' -> exists x, nth_error (acts s) k = Some x /\ moved x x'.
+Proof.
+  intros Hq.
+  assert (HS : core_eq s s /\ forall k x', nth_error (acts s) k = Some x' -> exists x, nth_error (acts s) k = Some x /\ moved x x').
+  { split; [apply core_eq_refl|]. intros k x' H. exists x'. split; [exact H | apply moved_refl]. }
+  assert (HU : forall a xa p, nth_error (acts s) a = Some xa -> apc xa = PBlocked ->
+               match ak xa with KClient _ _ _ => p = PRet 3 | KWait _ _ _ => p = PRet 4 \/ p = PGate end ->
+               core_eq s (setpc s a xa p) /\
+               forall k x', nth_error (acts (setpc s a xa p)) k = Some x' -> exists x, nth_error (acts s) k = Some x /\ moved x x').
+  { intros a xa p G Hb Hp. split; [apply core_eq_upd|]. intros k x' H. unfold setpc, upd_actor in H. cbn [acts] in H.
+    apply set_nth_lookup in H as [(-> & -> & _)|(Hne & H)].
+    - exists xa. split; [exact G|]. unfold moved. cbn [ak acanc samp apc]. repeat split; auto.
+    - exists x'. split; [exact H | apply moved_refl]. }
+  destruct e as [| | | | |a| |a]; try discriminate Hq; cbn [step].
+  - destruct (nth_error (acts s) a) as [xa|] eqn:G; [|exact HS].
+    destruct (apc xa) eqn:Ep; try exact HS. destruct (samp xa) as [[c v]|]; [|exact HS].
+    destruct (closed (sb s) c); [|exact HS].
+    destruct (ak xa) eqn:Ek; apply HU; auto; rewrite Ek; auto. destruct (acanc xa); auto.
+  - destruct (nth_error (acts s) a) as [xa|] eqn:G; [|exact HS].
+    destruct (ak xa) eqn:Ek; try exact HS. destruct (apc xa) eqn:Ep; try exact HS. destruct (acanc xa); [|exact HS].
+    apply HU; auto. rewrite Ek. auto.
+Qed.
+
+Lemma quiet_steps ws : forall s, forallb quiet ws = true ->
+  core_eq s (fold_left step ws s) /\
+  forall k x', nth_error (acts (fold_left step ws s)) k = Some x' -> exists x, nth_error (acts s) k = Some x /\ moved x x'.
+Proof.
+  induction ws as [|w ws IH]; intros s Hq; cbn [fold_left].
+  - split; [apply core_eq_refl|]. intros k x' H. exists x'. split; [exact H | apply moved_refl].
+  - cbn [forallb] in Hq. apply andb_true_iff in Hq as [Hw Hq].
+    destruct (quiet_step s w Hw) as [C1 A1]. destruct (IH (step s w) Hq) as [C2 A2].
+    split; [eapply core_eq_trans; eauto|]. intros k x' H.
+    destruct (A2 k x' H) as (x1 & H1 & M1). destruct (A1 k x1 H1) as (x & H0 & M0).
+    exists x. split; [exact H0 | eapply moved_trans; eauto].
+Qed.
+
+Lemma core_eq_lookup s s' k : core_eq s s' -> (exists x, nth_error (acts s) k = Some x) -> exists x', nth_error (acts s') k = Some x'.
+Proof.
+  intros (_ & _ & _ & _ & _ & Hl) (x & Hx). apply nth_error_nth_len in Hx.
+  destruct (nth_error (acts s') k) eqn:E; [eauto|]. apply nth_error_None in E. lia.
+Qed.
+
+(* ---- settled states ---- *)
+Definition settled (s : st) : Prop :=
+  forall a x c v, nth_error (acts s) a = Some x -> apc x = PBlocked -> samp x = Some (c, v) -> closed (sb s) c = false.
+
+Lemma quiet_steps_settled ws s : forallb quiet ws = true -> settled s -> settled (fold_left step ws s).
+Proof.
+  intros Hq Hs. destruct (quiet_steps ws s Hq) as [(Hb & _) A]. intros a x' c v Hx Hp Hsm.
+  destruct (A a x' Hx) as (x & Hx0 & (_ & _ & Esm & [->|(_ & Hm)])).
+  - rewrite Hb. eauto.
+  - exfalso. destruct (ak x); [congruence | destruct Hm; congruence].
+Qed.
+
+Lemma wakes_settled l : forall s a, In a l ->
+  forall x c v, nth_error (acts (fold_left step (map Wake l) s)) a = Some x -> apc x = PBlocked -> samp x = Some (c, v) ->
+  closed (sb (fold_left step (map Wake l) s)) c = false.
+Proof.
+  induction l as [|b l IH]; intros s a Hin x c v Hx Hp Hsm; [destruct Hin|].
+  cbn [map fold_left] in *.
+  destruct (in_dec Nat.eq_dec a l) as [Hl|Hl]; [eapply IH; eauto|].
+  destruct Hin as [->|Hin]; [|contradiction].
+  destruct (quiet_steps (map Wake l) (step s (Wake a)) (quiet_wakes l)) as [(Hb & _) A].
+  destruct (A a x Hx) as (x2 & Hx2 & (_ & _ & Esm & Hmv)).
+  assert (x = x2).
+  { destruct Hmv as [->|(_ & Hm)]; [reflexivity|]. exfalso. destruct (ak x2); [congruence | destruct Hm; congruence]. }
+  subst x2. rewrite Hb. clear A Hb Hmv Esm Hx.
+  cbn [step] in *. destruct (nth_error (acts s) a) as [xa|] eqn:G; [|congruence].
+  destruct (apc xa) eqn:Ep; try (assert (xa = x) by congruence; subst xa; congruence).
+  destruct (samp xa) as [[c0 v0]|] eqn:Es; [|assert (xa = x) by congruence; subst xa; congruence].
+  destruct (closed (sb s) c0) eqn:Ec; [|assert (xa = x) by congruence; subst xa; congruence].
+  exfalso. pose proof (nth_error_nth_len _ _ _ G) as Hlen.
+  destruct (ak xa); unfold setpc, upd_actor in Hx2; cbn [acts] in Hx2;
+    rewrite nth_error_set_nth_same in Hx2 by exact Hlen; inversion Hx2; subst x; cbn [apc] in Hp;
+    try discriminate. destruct (acanc xa); discriminate.
+Qed.
+
+Lemma settle_settled s : settled (settle s).
+Proof.
+  rewrite settle_fold. intros a x c v Hx Hp Hsm.
+  destruct (quiet_steps _ s (quiet_wakes (seq 0 (length (acts s))))) as [(_ & _ & _ & _ & _ & Hl) _].
+  eapply wakes_settled; eauto. apply in_seq. apply nth_error_nth_len in Hx. lia.
+Qed.
+
+(* ---- lengths, log prefixes ---- *)
+Lemma do_sect_length s a : length (acts (do_sect s a)) = length (acts s).
+Proof.
+  unfold do_sect. destruct (nth_error (acts s) a) as [x|]; [|reflexivity].
+  destruct (apc x); try reflexivity. destruct (ak x) as [ops hold block|pk kk sl].
+  - cbn [acts]. apply length_set_nth.
+  - destruct (evalp pk kk (sg s)); unfold setpc, upd_actor; cbn [acts]; try apply length_set_nth.
+    destruct (getch (sb s)). cbn [acts]. apply length_set_nth.
+Qed.
+
+Definition is_call (e : ev) : nat := match e with CallClient _ _ _ _ | CallWait _ _ _ _ => 1 | _ => 0 end.
+
+Lemma step_length s e : length (acts (step s e)) = length (acts s) + is_call e.
+Proof.
+  assert (HA : forall x, length (acts (add_actor s x)) = length (acts s) + 1).
+  { intros x. unfold add_actor. cbn [acts]. rewrite app_length. reflexivity. }
+  destruct e as [mode ops hold block|pk kk pre sl|a|a|a|a|a|a]; cbn [step is_call].
+  - destruct mode as [|[|mode]]; [apply HA| |]; destruct (sheld s); try apply HA; rewrite do_sect_length; apply HA.
+  - destruct (N.leb 4 pk); [|destruct pre]; apply HA.
+  - rewrite Nat.add_0_r. destruct (sheld s); [reflexivity | apply do_sect_length].
+  - rewrite Nat.add_0_r. destruct (nth_error (acts s) a) as [x|]; [|reflexivity].
+    destruct (apc x); try reflexivity. destruct (ak x); try reflexivity. unfold upd_actor. cbn [acts]. apply length_set_nth.
+  - rewrite Nat.add_0_r. destruct (nth_error (acts s) a) as [x|]; [|reflexivity].
+    destruct (apc x); try reflexivity. unfold setpc, upd_actor. cbn [acts]. apply length_set_nth.
+  - rewrite Nat.add_0_r. destruct (quiet_step s (Wake a) eq_refl) as [(_ & _ & _ & _ & _ & H) _]. exact H.
+  - rewrite Nat.add_0_r. destruct (nth_error (acts s) a) as [x|]; [|reflexivity].
+    destruct (ak x); try reflexivity. unfold upd_actor. cbn [acts]. apply length_set_nth.
+  - rewrite Nat.add_0_r. destruct (quiet_step s (CancelWake a) eq_refl) as [(_ & _ & _ & _ & _ & H) _]. exact H.
+Qed.
+
+(* ---- the monitor's bookkeeping of a callback program agrees with the model ---- *)
+Definition cflags (b : bc) (l : list (nat * nat)) : list bool := map (fun p => closed b (fst p)) l.
+Definition logged_lt (b : bc) (l : list (nat * nat)) : Prop := forall c k, In (c, k) l -> c < nxt b.
+
+Lemma do_op_mon o p : bc_wf (ob o) -> logged_lt (ob o) (ol o) ->
+  mon_op (od o, cflags (ob o) (ol o)) p = (od (do_op o p), cflags (ob (do_op o p)) (ol (do_op o p))) /\
+  bc_wf (ob (do_op o p)) /\ logged_lt (ob (do_op o p)) (ol (do_op o p)) /\
+  (exists ex, ol (do_op o p) = ol o ++ ex).
+Proof.
+  intros Hwf Hlt. destruct p as [| | |v0]; cbn [do_op mon_op fst snd].
+  - cbn [ob od ol]. split; [|split; [apply bcast_wf|split; [exact Hlt|exists []; now rewrite app_nil_r]]].
+    f_equal. unfold cflags. rewrite map_map. apply map_ext_in. intros [c k] Hin. cbn [fst].
+    symmetry. apply bcast_closes. eapply Hlt; eauto.
+  - pose proof (getch_open (ob o) Hwf) as Hopen. pose proof (getch_closed_same (ob o) ) as Hsame.
+    pose proof (getch_nxt_mono (ob o)) as Hmono. pose proof (getch_wf (ob o) Hwf) as Hwf2.
+    destruct (getch (ob o)) as [b' c0] eqn:EG. cbn [fst] in *. destruct Hopen as (Hlt0 & Hop & _).
+    cbn [ob od ol]. split; [|split; [exact Hwf2|split; [|eexists; reflexivity]]].
+    + f_equal. unfold cflags. rewrite map_app. cbn [map fst]. rewrite Hop. f_equal.
+      apply map_ext_in. intros [c k] Hin. cbn [fst]. symmetry. apply Hsame; auto. eapply Hlt; eauto.
+    + intros c k Hin. apply in_app_or in Hin as [Hin|[Hin|[]]]; [specialize (Hlt c k Hin); lia|]. inversion Hin; subst. exact Hlt0.
+  - cbn [ob od ol]. split; [reflexivity|]. split; [exact Hwf|]. split; [exact Hlt|]. exists []. now rewrite app_nil_r.
+  - cbn [ob od ol]. split; [reflexivity|]. split; [exact Hwf|]. split; [exact Hlt|]. exists []. now rewrite app_nil_r.
+Qed.
+
+Lemma run_ops_mon ops : forall o, bc_wf (ob o) -> logged_lt (ob o) (ol o) ->
+  fold_left mon_op ops (od o, cflags (ob o) (ol o)) = (od (run_ops o ops), cflags (ob (run_ops o ops)) (ol (run_ops o ops))) /\
+  (exists ex, ol (run_ops o ops) = ol o ++ ex).
+Proof.
+  induction ops as [|p ops IH]; intros o Hwf Hlt; cbn [fold_left run_ops].
+  - split; [reflexivity|]. exists []. now rewrite app_nil_r.
+  - destruct (do_op_mon o p Hwf Hlt) as (E & Hwf2 & Hlt2 & (ex1 & Hex1)). rewrite E.
+    destruct (IH (do_op o p) Hwf2 Hlt2) as (E2 & (ex2 & Hex2)). unfold run_ops in *. split; [exact E2|].
+    exists (ex1 ++ ex2). rewrite Hex2, Hex1. now rewrite app_assoc.
+Qed.
+
+(* ---- what the main step does to the core, as the monitor's fold ---- *)
+Definition sect_ops (s : st) (a : nat) : list op :=
+  match nth_error (acts s) a with
+  | Some x => match apc x, ak x with PGate, KClient ops _ _ => ops | _, _ => [] end
+  | None => []
+  end.
+
+Definition ran_ops (s : st) (e0 : ev) : list op :=
+  match e0 with
+  | Sect a => if sheld s then [] else sect_ops s a
+  | CallClient mode ops _ _ => match mode with 0 => [] | _ => if sheld s then [] else ops end
+  | _ => []
+  end.
+
+Definition core_step (s s1 : st) (ops : list op) : Prop :=
+  fold_left mon_op ops (sdirty s, cflags (sb s) (slog s)) = (sdirty s1, cflags (sb s1) (slog s1)) /\
+  (exists ex, slog s1 = slog s ++ ex).
+
+Lemma core_step_same s s1 : sb s1 = sb s -> sdirty s1 = sdirty s -> slog s1 = slog s -> core_step s s1 [].
+Proof. intros H1 H2 H3. unfold core_step. rewrite H1, H2, H3. split; [reflexivity|]. exists []. now rewrite app_nil_r. Qed.
+
+Lemma inv_logged_lt s : Inv s -> logged_lt (sb s) (slog s).
+Proof. intros (_ & Hlog & _) c k Hin. now destruct (Hlog c k Hin). Qed.
+
+Lemma do_sect_core s a : Inv s -> core_step s (do_sect s a) (sect_ops s a).
+Proof.
+  intros HI. pose proof HI as (Hwf & _). pose proof (inv_logged_lt s HI) as Hlt.
+  unfold do_sect, sect_ops. destruct (nth_error (acts s) a) as [x|] eqn:G; [|now apply core_step_same].
+  destruct (apc x) eqn:Ep; try now apply core_step_same.
+  destruct (ak x) as [ops hold block|pk kk sl] eqn:Ek.
+  - set (o0 := {| ob := sb s; og := sg s; od := sdirty s; on := snb s; ol := slog s; osamp := samp x |}).
+    destruct (run_ops_mon ops o0 Hwf Hlt) as (E & Hex). unfold core_step. cbn [sb sdirty slog]. exact (conj E Hex).
+  - destruct (evalp pk kk (sg s)); try now apply core_step_same.
+    pose proof (getch_closed_same (sb s)) as Hsame.
+    destruct (getch (sb s)) as [b' c0] eqn:EG. cbn [fst] in *.
+    unfold core_step. cbn [sb sdirty slog fold_left]. split; [|exists []; now rewrite app_nil_r].
+    f_equal. unfold cflags. apply map_ext_in. intros [c k] Hin. cbn [fst]. symmetry. apply Hsame; auto. eapply Hlt; eauto.
+Qed.
+
+Lemma step_core s e0 : Inv s -> core_step s (step s e0) (ran_ops s e0).
+Proof.
+  intros HI.
+  destruct e0 as [mode ops hold block|pk kk pre sl|a|a|a|a|a|a]; cbn [step ran_ops].
+  - assert (HD : core_step s (do_sect (add_actor s {| ak := KClient ops hold block; apc := PGate; acanc := false; samp := None |}) (length (acts s))) ops).
+    { set (x0 := {| ak := KClient ops hold block; apc := PGate; acanc := false; samp := None |}).
+      assert (HI0 : Inv (add_actor s x0)).
+      { apply inv_add; auto; cbn [apc]; [intros [H|H]; discriminate H | discriminate]. }
+      pose proof (do_sect_core (add_actor s x0) (length (acts s)) HI0) as HC.
+      assert (Eo : sect_ops (add_actor s x0) (length (acts s)) = ops).
+      { unfold sect_ops, add_actor. cbn [acts]. rewrite nth_error_app2 by lia. rewrite Nat.sub_diag. reflexivity. }
+      rewrite Eo in HC. exact HC. }
+    destruct mode as [|[|mode]]; [now apply core_step_same| |]; destruct (sheld s); try (now apply core_step_same); exact HD.
+  - destruct (N.leb 4 pk); [|destruct pre]; now apply core_step_same.
+  - destruct (sheld s); [now apply core_step_same | now apply do_sect_core].
+  - destruct (nth_error (acts s) a) as [x|]; [|now apply core_step_same].
+    destruct (apc x); try now apply core_step_same. destruct (ak x); now apply core_step_same.
+  - destruct (nth_error (acts s) a) as [x|]; [|now apply core_step_same].
+    destruct (apc x); now apply core_step_same.
+  - destruct (quiet_step s (Wake a) eq_refl) as [(H1 & _ & H3 & _ & H5 & _) _]. now apply core_step_same.
+  - destruct (nth_error (acts s) a) as [x|]; [|now apply core_step_same].
+    destruct (ak x); now apply core_step_same.
+  - destruct (quiet_step s (CancelWake a) eq_refl) as [(H1 & _ & H3 & _ & H5 & _) _]. now apply core_step_same.
+Qed.
+
+(* ---- list plumbing ---- *)
+Lemma existsb_false_intro {A} (f : A -> bool) l : (forall x, In x l -> f x = false) -> existsb f l = false.
+Proof.
+  induction l as [|h t IH]; intros H; [reflexivity|]. cbn [existsb].
+  rewrite (H h (or_introl eq_refl)). apply IH. intros x Hx. apply H. now right.
+Qed.
+
+Lemma in_combine_nth {A B} (l1 : list A) (l2 : list B) a b :
+  In (a, b) (combine l1 l2) -> exists i, nth_error l1 i = Some a /\ nth_error l2 i = Some b.
+Proof.
+  revert l2. induction l1 as [|h1 t1 IH]; intros l2 H; [destruct H|].
+  destruct l2 as [|h2 t2]; [destruct H|]. cbn [combine] in H. destruct H as [H|H].
+  - inversion H; subst. exists 0. auto.
+  - destruct (IH t2 H) as (i & H1 & H2). exists (S i). auto.
+Qed.
+
+Lemma firstn_map_app {A B} (f : A -> B) l r : firstn (length l) (map f l ++ r) = map f l.
+Proof. induction l as [|h t IH]; cbn; [now destruct r | now rewrite IH]. Qed.
+
+Lemma skipn_map_app {A B} (f : A -> B) l r : skipn (length l) (map f l ++ r) = r.
+Proof. induction l as [|h t IH]; cbn; auto. Qed.
+
+Lemma combine_map_same {A B C} (f : A -> B) (g : A -> C) l : combine (map f l) (map g l) = map (fun x => (f x, g x)) l.
+Proof. induction l as [|h t IH]; cbn; [reflexivity | now rewrite IH]. Qed.
+
+Lemma upd_length {A} (l : list A) i f : length (upd l i f) = length l.
+Proof. unfold upd. destruct (nth_error l i); [apply length_set_nth | reflexivity]. Qed.
+
+Lemma upd_lookup {A} (l : list A) i f j y : nth_error (upd l i f) j = Some y ->
+  (j = i /\ exists x, nth_error l i = Some x /\ y = f x) \/ (j <> i /\ nth_error l j = Some y).
+Proof.
+  unfold upd. destruct (nth_error l i) as [x|] eqn:G; intros H.
+  - apply set_nth_lookup in H as [(-> & -> & _)|(Hne & H)]; [left; eauto | right; auto].
+  - destruct (Nat.eq_dec j i) as [->|Hne]; [congruence | right; auto].
+Qed.
+
+Lemma bit_eqb n b : bit n = Some b -> N.eqb n 1 = b.
+Proof. destruct n as [|[p|p|]]; cbn; intros H; inversion H; reflexivity. Qed.
+
+Lemma code_ret p r : code_pc p = r -> (r = 3 \/ r = 4 \/ 8 <= r)%N -> p = PRet r.
+Proof. destruct p; cbn [code_pc]; intros <- H; try lia. reflexivity. Qed.
+
+Lemma code_blocked p : code_pc p = 2%N -> p = PBlocked \/ p = PRet 2.
+Proof. destruct p; cbn [code_pc]; intros H; try discriminate; auto. right. now subst. Qed.
+
+(* ---- the simulation relation between monitor state and model state ---- *)
+Definition oldcode (s : st) (i : nat) : N := match nth_error (acts s) i with Some x => code_pc (apc x) | None => 0%N end.
+
+Definition arel0 (mx : mactor) (x : actor) : Prop :=
+  mkd mx = ak x /\ (forall pk k, m_wait mx = Some (pk, k) -> mcanc mx = acanc x).
+
+Definition nflags (b : bc) (l : list (nat * nat)) : list N := map (fun p => if closed b (fst p) then 1%N else 0%N) l.
+
+Definition R (m : mst) (s : st) : Prop :=
+  length (mas m) = length (acts s) /\
+  (forall i mx x, nth_error (mas m) i = Some mx -> nth_error (acts s) i = Some x -> arel0 mx x /\ mlast mx = code_pc (apc x)) /\
+  md m = sdirty s /\ mexp m = cflags (sb s) (slog s) /\ mflags m = nflags (sb s) (slog s).
+
+Lemma app_lookup {A} (l : list A) y i z :
+  nth_error (l ++ [y]) i = Some z -> nth_error l i = Some z \/ (nth_error l i = None /\ i = length l /\ z = y).
+Proof.
+  intros H. destruct (Nat.lt_ge_cases i (length l)) as [Hl|Hl].
+  - left. now rewrite nth_error_app1 in H.
+  - right. pose proof (nth_error_nth_len _ _ _ H) as Hlen. rewrite app_length in Hlen. cbn in Hlen.
+    assert (i = length l) by lia. subst i. split; [now apply nth_error_None|]. split; [reflexivity|].
+    rewrite nth_error_app2 in H by lia. rewrite Nat.sub_diag in H. now inversion H.
+Qed.
+
+Lemma mas1_rel m s e e0 : R m s -> hdec s e e0 ->
+  length (mon_mas1 m e) = length (acts (step s e0)) /\
+  forall i mx x1, nth_error (mon_mas1 m e) i = Some mx -> nth_error (acts (step s e0)) i = Some x1 ->
+    arel0 mx x1 /\ mlast mx = oldcode s i.
+Proof.
+  intros (Hlen & Hrel & _) Hd.
+  assert (HE : forall i mx x1, nth_error (mas m) i = Some mx -> nth_error (acts (step s e0)) i = Some x1 ->
+               e0 <> CancelCtx i -> arel0 mx x1 /\ mlast mx = oldcode s i).
+  { intros i mx x1 Hm Hx Hne. destruct (step_actor _ _ _ _ Hx) as [(x & Hx0 & Hak & [Hc|Hc])|(Hnone & _)].
+    - destruct (Hrel i mx x Hm Hx0) as ((A1 & A2) & A3). unfold oldcode. rewrite Hx0.
+      split; [|exact A3]. split; [congruence|]. intros pk k Hw. rewrite Hc. eauto.
+    - contradiction.
+    - exfalso. apply nth_error_None in Hnone. apply nth_error_nth_len in Hm. lia. }
+  pose proof (step_length s e0) as HL.
+  destruct Hd as [mode hold block ops h bl Hh Hb Hmode|pk k pre slow p sl Hp Hsl Hpk|i x G Hp Hh|i x pk k sl G Hk Hpk|i x G Hp|i x G Hp];
+    cbn [mon_mas1 is_call] in *.
+  - split; [rewrite app_length; cbn [length]; lia|].
+    intros i mx x1 Hm Hx. apply app_lookup in Hm as [Hm|(Hm & -> & ->)]; [apply HE; auto; discriminate|].
+    rewrite Hlen in *. unfold oldcode.
+    destruct (step_actor _ _ _ _ Hx) as [(x & Hx0 & _)|(Hnone & Hnew)].
+    + apply nth_error_nth_len in Hx0. lia.
+    + rewrite Hnone. cbn [new_actor] in Hnew. destruct Hnew as (Hak & _).
+      split; [|reflexivity]. split; [cbn [mkd]; rewrite (bit_eqb _ _ Hh), (bit_eqb _ _ Hb); congruence|].
+      intros pk k Hw. discriminate Hw.
+  - split; [rewrite app_length; cbn [length]; lia|].
+    intros i mx x1 Hm Hx. apply app_lookup in Hm as [Hm|(Hm & -> & ->)]; [apply HE; auto; discriminate|].
+    rewrite Hlen in *. unfold oldcode.
+    destruct (step_actor _ _ _ _ Hx) as [(x & Hx0 & _)|(Hnone & Hnew)].
+    + apply nth_error_nth_len in Hx0. lia.
+    + rewrite Hnone. cbn [new_actor] in Hnew. destruct Hnew as (Hak & _ & _ & _ & Hc).
+      split; [|reflexivity]. split; [cbn [mkd]; rewrite (bit_eqb _ _ Hsl); congruence|].
+      intros pk0 k0 Hw. unfold m_wait in Hw. cbn [mkd mcanc] in *.
+      destruct (N.ltb pk 4) eqn:E4; [|discriminate]. rewrite (bit_eqb _ _ Hp). symmetry. apply Hc.
+      apply N.ltb_lt in E4. apply N.leb_gt. exact E4.
+  - split; [lia|]. intros j mx x1 Hm Hx. apply HE; auto. discriminate.
+  - rewrite upd_length. split; [lia|]. intros j mx x1 Hm Hx.
+    apply upd_lookup in Hm as [(-> & mx0 & Hm0 & ->)|(Hne & Hm)].
+    + cbn [mkd mcanc mlast]. destruct (Hrel _ mx0 x Hm0 G) as ((A1 & A2) & A3).
+      cbn [step] in Hx. rewrite G, Hk in Hx. unfold upd_actor in Hx. cbn [acts] in Hx.
+      rewrite nth_error_set_nth_same in Hx by (eapply nth_error_nth_len; eauto). inversion Hx; subst x1.
+      unfold oldcode. rewrite G. split; [|exact A3]. split; [cbn [mkd ak]; congruence|]. intros; reflexivity.
+    + apply HE; auto. intros Heq. inversion Heq. congruence.
+  - split; [lia|]. intros j mx x1 Hm Hx. apply HE; auto. discriminate.
+  - split; [lia|]. intros j mx x1 Hm Hx. apply HE; auto. discriminate.
+Qed.
+
+Lemma do_sect_new_client s ops hold block x1 :
+  let x0 := {| ak := KClient ops hold block; apc := PGate; acanc := false; samp := None |} in
+  nth_error (acts (do_sect (add_actor s x0) (length (acts s)))) (length (acts s)) = Some x1 ->
+  apc x1 = PHold \/ apc x1 = PRet 3 \/ apc x1 = PBlocked.
+Proof.
+  intros x0 H. unfold do_sect in H.
+  assert (G : nth_error (acts (add_actor s x0)) (length (acts s)) = Some x0).
+  { unfold add_actor. cbn [acts]. rewrite nth_error_app2 by lia. now rewrite Nat.sub_diag. }
+  rewrite G in H. cbn [apc ak x0] in H. cbn [acts] in H.
+  rewrite nth_error_set_nth_same in H by (eapply nth_error_nth_len; eauto). inversion H. cbn [apc].
+  destruct hold; [auto|]. unfold after_client. destruct block; [|auto].
+  match goal with |- context [osamp ?o] => destruct (osamp o) end; auto.
+Qed.
+
+Lemma ops_ran_agree m s e e0 s' : R m s -> hdec s e e0 ->
+  length (acts s') = length (acts (step s e0)) ->
+  (forall k x', nth_error (acts s') k = Some x' -> exists x1, nth_error (acts (step s e0)) k = Some x1 /\ moved x1 x') ->
+  mon_ops_ran (mon_mas1 m e) (length (mas m)) e (map (fun x => code_pc (apc x)) (acts s')) = ran_ops s e0.
+Proof.
+  intros (Hlen & Hrel & _) Hd HL HM. pose proof (step_length s e0) as HL1.
+  destruct Hd as [mode hold block ops h bl Hh Hb Hmode|pk k pre slow p sl Hp Hsl Hpk|i x G Hp Hh|i x pk k sl G Hk Hpk|i x G Hp|i x G Hp];
+    cbn [mon_ops_ran ran_ops is_call] in *; try reflexivity.
+  - destruct mode as [|pm]; [reflexivity|]. cbn [N.eqb].
+    destruct (N.to_nat (N.pos pm)) as [|n0] eqn:En; [pose proof (Pos2Nat.is_pos pm); cbn in En; lia|].
+    rewrite Hlen.
+    destruct (nth_error (acts s') (length (acts s))) as [x'|] eqn:Gx;
+      [|apply nth_error_None in Gx; lia].
+    rewrite nth_error_map, Gx. cbn [option_map].
+    destruct (HM _ _ Gx) as (x1 & Hx1 & (_ & _ & _ & Hmv)).
+    assert (HH : forall p0, p0 = PRet 5 \/ p0 = PGate -> apc x1 = p0 -> (N.eqb (code_pc (apc x')) 5 || N.eqb (code_pc (apc x')) 1) = true).
+    { intros p0 Hp0 E1. destruct Hmv as [->|(Hbk & _)]; [|destruct Hp0; congruence].
+      rewrite E1. destruct Hp0; subst p0; reflexivity. }
+    assert (HN : apc x1 = PHold \/ apc x1 = PRet 3 \/ apc x1 = PBlocked -> ak x1 = KClient (map dec_op ops) h bl ->
+                 (N.eqb (code_pc (apc x')) 5 || N.eqb (code_pc (apc x')) 1) = false).
+    { intros Hc Hk1. destruct Hmv as [->|(Hbk & Hm)].
+      - destruct Hc as [E|[E|E]]; rewrite E; reflexivity.
+      - rewrite Hk1 in Hm. rewrite Hm. reflexivity. }
+    assert (HA : forall p0, nth_error (acts (add_actor s {| ak := KClient (map dec_op ops) h bl; apc := p0; acanc := false; samp := None |})) (length (acts s)) = Some x1 ->
+                 apc x1 = p0).
+    { intros p0 Hl. unfold add_actor in Hl. cbn [acts] in Hl. rewrite nth_error_app2 in Hl by lia.
+      rewrite Nat.sub_diag in Hl. inversion Hl. reflexivity. }
+    assert (HK : ak x1 = KClient (map dec_op ops) h bl).
+    { destruct (step_actor _ _ _ _ Hx1) as [(x0 & Hx0 & _)|(_ & (Hk1 & _))]; [apply nth_error_nth_len in Hx0; lia | exact Hk1]. }
+    cbn [step] in Hx1. destruct n0 as [|n0]; destruct (sheld s) eqn:Eh.
+    + rewrite (HH (PRet 5)); auto.
+    + rewrite HN; auto. eapply do_sect_new_client; eauto.
+    + rewrite (HH PGate); auto.
+    + rewrite HN; auto. eapply do_sect_new_client; eauto.
+  - rewrite Hh. unfold sect_ops. rewrite G, Hp. cbn [mon_mas1].
+    destruct (nth_error (mas m) (N.to_nat i)) as [mx|] eqn:Gm;
+      [|apply nth_error_None in Gm; apply nth_error_nth_len in G; lia].
+    destruct (Hrel _ mx x Gm G) as ((A1 & _) & _). unfold m_ops. rewrite A1. destruct (ak x); reflexivity.
+Qed.
+
+Lemma nth_error_combine {A B} (l1 : list A) (l2 : list B) i a b :
+  nth_error (combine l1 l2) i = Some (a, b) -> nth_error l1 i = Some a /\ nth_error l2 i = Some b.
+Proof.
+  revert l2 i. induction l1 as [|h1 t1 IH]; intros l2 i H; [destruct i; discriminate|].
+  destruct l2 as [|h2 t2]; [destruct i; discriminate|]. destruct i as [|i]; cbn in *.
+  - inversion H. auto.
+  - apply IH. exact H.
+Qed.
+
+(* ---- semantic clauses at the level of one harness event ---- *)
+Lemma hstep_wait_ret s e0 s' k x' pk kk sl r :
+  (forall j y', nth_error (acts s') j = Some y' -> exists y1, nth_error (acts (step s e0)) j = Some y1 /\ moved y1 y') ->
+  sg s' = sg (step s e0) ->
+  nth_error (acts s') k = Some x' -> ak x' = KWait pk kk sl -> N.ltb pk 4 = true ->
+  apc x' = PRet r -> r <> 4%N -> oldcode s k <> r ->
+  ret_reason pk kk (sg s') r.
+Proof.
+  intros HM Hg Hx Hk Hpk Hr Hr4 Hold.
+  destruct (HM _ _ Hx) as (x1 & Hx1 & (Eak & _ & _ & Hmv)).
+  assert (x' = x1).
+  { destruct Hmv as [E|(_ & Hm)]; [exact E|]. exfalso. rewrite <- Eak, Hk in Hm. destruct Hm as [Hm|Hm]; rewrite Hm in Hr; [inversion Hr; congruence | discriminate]. }
+  subst x1. rewrite Hg.
+  destruct (step_actor _ _ _ _ Hx1) as [(x & Hx0 & Hak & _)|(Hnone & Hnew)].
+  - assert (Hne : apc x <> PRet r).
+    { intros E. apply Hold. unfold oldcode. rewrite Hx0, E. reflexivity. }
+    rewrite Hk in Hak. symmetry in Hak.
+    destruct (step_wait_ret _ _ _ _ _ _ _ _ _ Hx0 Hx1 Hak Hr Hne Hr4) as (_ & Hg1 & Hrr). rewrite Hg1. exact Hrr.
+  - exfalso. destruct e0; cbn [new_actor] in Hnew; try contradiction.
+    + destruct Hnew as (Hk1 & _). congruence.
+    + destruct Hnew as (Hk1 & _ & [Hp|[Hp|Hp]] & H8 & _); rewrite Hp in Hr; try discriminate.
+      * rewrite Hk in Hk1. inversion Hk1; subst. specialize (H8 Hp). apply N.ltb_lt in Hpk. apply N.leb_le in H8. lia.
+      * inversion Hr. congruence.
+Qed.
+
+Lemma settled_blocked_pred_false es a x pk kk sl :
+  settled (run es) -> sdirty (run es) = false ->
+  nth_error (acts (run es)) a = Some x -> ak x = KWait pk kk sl -> apc x = PBlocked ->
+  evalp pk kk (sg (run es)) = PFalse.
+Proof.
+  intros Hs Hd Hx Hk Hp.
+  destruct (blocked_has_sample es a x Hx (or_introl Hp)) as (c & v & Hsm).
+  pose proof (Hs a x c v Hx Hp Hsm) as Hop.
+  destruct (blocked_sampled_state es a x c v Hx Hsm) as (_ & [H|[H|H]]); try congruence.
+  rewrite H. eapply wait_sample_pred_false; eauto.
+Qed.
+
+(* ---- settledness is preserved by every harness event ---- *)
+Lemma settled_step_same_core s e :
+  sb (step s e) = sb s ->
+  (forall k x', nth_error (acts (step s e)) k = Some x' -> apc x' = PBlocked ->
+     exists x, nth_error (acts s) k = Some x /\ apc x = PBlocked /\ samp x = samp x') ->
+  settled s -> settled (step s e).
+Proof.
+  intros Hb HA Hs a x' c v Hx Hp Hsm. destruct (HA a x' Hx Hp) as (x & Hx0 & Hp0 & Esm). rewrite Hb. apply (Hs a x c v Hx0 Hp0). congruence.
+Qed.
+
+Lemma settled_callwait s pk k p sl : settled s -> settled (step s (CallWait pk k p sl)).
+Proof.
+  apply settled_step_same_core.
+  - cbn [step]. destruct (N.leb 4 pk); [|destruct p]; reflexivity.
+  - intros j x' Hx Hp. destruct (step_actor _ _ _ _ Hx) as [(x & Hx0 & _)|(Hnone & Hnew)].
+    + exists x. cbn [step] in Hx. assert (x' = x); [|subst; auto].
+      destruct (N.leb 4 pk); [|destruct p]; (apply add_actor_lookup in Hx as [Hx|(Hx & _)]; congruence).
+    + exfalso. cbn [new_actor] in Hnew. destruct Hnew as (_ & _ & [E|[E|E]] & _); congruence.
+Qed.
+
+Lemma settled_cancel s a : settled s -> settled (step (step s (CancelCtx a)) (CancelWake a)).
+Proof.
+  intros Hs. apply (quiet_steps_settled [CancelWake a] (step s (CancelCtx a)) eq_refl).
+  revert Hs. apply settled_step_same_core.
+  - cbn [step]. destruct (nth_error (acts s) a) as [xa|]; [|reflexivity]. destruct (ak xa); reflexivity.
+  - intros j x' Hx Hp. cbn [step] in Hx.
+    destruct (nth_error (acts s) a) as [xa|] eqn:G; [|eauto].
+    destruct (ak xa) eqn:Ek; [eauto|]. unfold upd_actor in Hx. cbn [acts] in Hx.
+    apply set_nth_lookup in Hx as [(-> & -> & _)|(Hne & Hx)]; [exists xa; cbn [apc samp] in *; auto | eauto].
+Qed.
+
+Opaque step.
+Lemma hstep_settled s e s' o : settled s -> hstep s e = Some (s', o) -> settled s'.
+Proof.
+  intros Hs H. unfold hstep in H.
+  repeat (match type of H with context [match ?t with _ => _ end] => destruct t eqn:?; try discriminate H end).
+  all: injection H as Hs' Ho; subst o; subst s'; try apply settle_settled.
+  all: match goal with
+       | |- settled (step _ (CallWait _ _ _ _)) => now apply settled_callwait
+       | |- settled (step (step _ (CancelCtx _)) (CancelWake _)) => now apply settled_cancel
+       end.
+Qed.
+Transparent step.
+
+Lemma bad57_false b l :
+  existsb bad5 (combine (cflags b l) (nflags b l)) = false /\ existsb bad7 (combine (cflags b l) (nflags b l)) = false.
+Proof.
+  unfold cflags, nflags. rewrite combine_map_same.
+  split; apply existsb_false_intro; intros x Hin; apply in_map_iff in Hin as (p & <- & _); cbn [bad5 bad7];
+    destruct (closed b (fst p)); reflexivity.
+Qed.
+
+Lemma bad6_false b b' l ex : (forall c, closed b c = true -> closed b' c = true) ->
+  existsb bad6 (combine (nflags b l) (nflags b' (l ++ ex))) = false.
+Proof.
+  intros Hm. unfold nflags. induction l as [|p l IH]; [reflexivity|]. cbn [map app combine existsb bad6].
+  rewrite IH. destruct (closed b (fst p)) eqn:E; [rewrite (Hm _ E); reflexivity | reflexivity].
+Qed.
+
+Lemma wait_no_ret2 es a x pk kk sl : nth_error (acts (run es)) a = Some x -> ak x = KWait pk kk sl -> apc x <> PRet 2.
+Proof.
+  intros Hx Hk Hr. assert (Hrr : (2 <> 4 /\ 2 <> 8)%N) by lia.
+  destruct (wait_ret_history es a x pk kk sl 2%N Hx Hk Hr Hrr) as (_ & _ & _ & _ & [(_ & E)|(e & _ & E)]); lia.
+Qed.
+
+Definition HR (s : st) : Prop := (exists es, s = run es) /\ settled s.
+
+Lemma m_wait_ak mx x pk k : mkd mx = ak x -> m_wait mx = Some (pk, k) -> exists sl, ak x = KWait pk k sl /\ N.ltb pk 4 = true.
+Proof.
+  intros E H. unfold m_wait in H. rewrite E in H. destruct (ak x) as [|pk0 k0 sl]; [discriminate|].
+  destruct (N.ltb pk0 4) eqn:E4; [|discriminate]. inversion H; subst. eauto.
+Qed.
+
+Lemma mon_step m s e s' o : HR s -> R m s -> hstep s e = Some (s', o) ->
+  exists m', mon m e o = (m', []) /\ R m' s' /\ HR s'.
+Proof.
+  intros ((es & Es) & Hset) HRm H.
+  pose proof (hstep_settled _ _ _ _ Hset H) as Hset'.
+  destruct (hstep_decomp _ _ _ _ H) as (e0 & ws & Hd & Hq & Hs' & Ho).
+  destruct (quiet_steps ws (step s e0) Hq) as [Hcore HM]. rewrite <- Hs' in Hcore, HM.
+  destruct Hcore as (Eb & Eg & Ed & En & El & Elen).
+  assert (Hrun : s' = run (es ++ e0 :: ws)).
+  { rewrite run_app. cbn [fold_left]. rewrite <- Es. exact Hs'. }
+  destruct (mas1_rel m s e e0 HRm Hd) as (L1 & A1).
+  pose proof (ops_ran_agree m s e e0 s' HRm Hd Elen HM) as Eops.
+  assert (HIs : Inv s) by (rewrite Es; apply run_inv).
+  destruct (step_core s e0 HIs) as (Ecore & (ex & Eex)).
+  pose proof HRm as (Hlen & Hrel & Emd & Emexp & Emfl).
+  set (sts := map (fun x => code_pc (apc x)) (acts s')).
+  assert (HP : forall mx st, In (mx, st) (combine (mon_mas1 m e) sts) ->
+               exists i x', nth_error (acts s') i = Some x' /\ st = code_pc (apc x') /\ arel0 mx x' /\ mlast mx = oldcode s i).
+  { intros mx st Hin. apply in_combine_nth in Hin as (i & H1 & H2). unfold sts in H2. rewrite nth_error_map in H2.
+    destruct (nth_error (acts s') i) as [x'|] eqn:Gx; [|discriminate]. cbn [option_map] in H2. inversion H2.
+    destruct (HM i x' Gx) as (x1 & Hx1 & (Eak & Eac & _ & _)). destruct (A1 i mx x1 H1 Hx1) as ((B1 & B2) & B3).
+    exists i, x'. split; [exact Gx|]. split; [now symmetry|]. split; [|exact B3].
+    split; [congruence|]. intros pk k Hw. rewrite Eac. eauto. }
+  assert (Emono : forall c, closed (sb s) c = true -> closed (sb s') c = true).
+  { rewrite Hrun, Es. destruct (run_mono es (e0 :: ws)) as (_ & _ & Hc). exact Hc. }
+  (* clauses *)
+  assert (C1 : existsb (bad1 (sg s')) (combine (mon_mas1 m e) sts) = false).
+  { apply existsb_false_intro. intros [mx st] Hin. destruct (HP mx st Hin) as (i & x' & Gx & -> & (B1 & B2) & B3).
+    cbn [bad1]. destruct (m_wait mx) as [[pk k]|] eqn:Ew; [|reflexivity].
+    destruct (m_wait_ak _ _ _ _ B1 Ew) as (sl & Ek & E4).
+    destruct (N.eqb (code_pc (apc x')) 3) eqn:E3; [|reflexivity].
+    destruct (N.eqb (mlast mx) 3) eqn:El3; [reflexivity|]. cbn [negb andb].
+    apply N.eqb_eq in E3. apply code_ret in E3; [|lia]. apply N.eqb_neq in El3. rewrite B3 in El3.
+    assert (H34 : (3 <> 4)%N) by lia.
+    destruct (hstep_wait_ret s e0 s' i x' pk k sl 3%N HM Eg Gx Ek E4 E3 H34 El3) as [(Hp & _)|(e1 & _ & He1)]; [|lia].
+    rewrite Hp. reflexivity. }
+  assert (C2 : existsb (bad2 (sg s')) (combine (mon_mas1 m e) sts) = false).
+  { apply existsb_false_intro. intros [mx st] Hin. destruct (HP mx st Hin) as (i & x' & Gx & -> & (B1 & B2) & B3).
+    cbn [bad2]. destruct (m_wait mx) as [[pk k]|] eqn:Ew; [|reflexivity].
+    destruct (m_wait_ak _ _ _ _ B1 Ew) as (sl & Ek & E4).
+    destruct (N.leb 8 (code_pc (apc x'))) eqn:E8; [|reflexivity].
+    destruct (N.eqb (mlast mx) (code_pc (apc x'))) eqn:El3; [reflexivity|]. cbn [negb andb].
+    apply N.leb_le in E8. pose proof (code_ret (apc x') _ eq_refl (or_intror (or_intror E8))) as Er.
+    apply N.eqb_neq in El3. rewrite B3 in El3.
+    assert (H84 : (code_pc (apc x') <> 4)%N) by lia.
+    destruct (hstep_wait_ret s e0 s' i x' pk k sl _ HM Eg Gx Ek E4 Er H84 El3) as [(_ & He1)|(e1 & Hp & He1)]; [lia|].
+    rewrite Hp. cbn [is_err]. rewrite He1, N.eqb_refl. reflexivity. }
+  assert (C3 : existsb bad3 (combine (mon_mas1 m e) sts) = false).
+  { apply existsb_false_intro. intros [mx st] Hin. destruct (HP mx st Hin) as (i & x' & Gx & -> & (B1 & B2) & B3).
+    cbn [bad3]. destruct (m_wait mx) as [[pk k]|] eqn:Ew; [|reflexivity].
+    destruct (m_wait_ak _ _ _ _ B1 Ew) as (sl & Ek & E4).
+    destruct (N.eqb (code_pc (apc x')) 4) eqn:E3; [|reflexivity].
+    apply N.eqb_eq in E3. apply code_ret in E3; [|lia].
+    rewrite (B2 pk k eq_refl). rewrite Hrun in Gx. rewrite (wait_canceled_flag _ _ _ _ _ _ Gx Ek E3).
+    now rewrite andb_false_r. }
+  assert (C4 : (negb (sdirty s') && existsb (bad4 (sg s')) (combine (mon_mas1 m e) sts)) = false).
+  { destruct (sdirty s') eqn:Edirty; [reflexivity|]. cbn [negb andb].
+    apply existsb_false_intro. intros [mx st] Hin. destruct (HP mx st Hin) as (i & x' & Gx & -> & (B1 & B2) & B3).
+    cbn [bad4]. destruct (m_wait mx) as [[pk k]|] eqn:Ew; [|reflexivity].
+    destruct (m_wait_ak _ _ _ _ B1 Ew) as (sl & Ek & E4).
+    destruct (N.eqb (code_pc (apc x')) 2) eqn:E2; [|reflexivity].
+    apply N.eqb_eq in E2. apply code_blocked in E2. rewrite Hrun in *.
+    destruct E2 as [E2|E2]; [|exfalso; eapply wait_no_ret2; eauto].
+    rewrite (settled_blocked_pred_false _ _ _ _ _ _ Hset' Edirty Gx Ek E2). reflexivity. }
+  destruct (bad57_false (sb s') (slog s')) as (C5 & C7).
+  assert (C6 : existsb bad6 (combine (mflags m) (nflags (sb s') (slog s'))) = false).
+  { rewrite Emfl, El, Eex. apply bad6_false. exact Emono. }
+  (* compute the monitor *)
+  assert (Ede : fold_left mon_op (mon_ops_ran (mon_mas1 m e) (length (mas m)) e sts) (md m, mexp m) = (sdirty s', cflags (sb s') (slog s'))).
+  { unfold sts. rewrite Eops, Emd, Emexp, Ecore, Ed, Eb, El. reflexivity. }
+  unfold mon. rewrite Ho. unfold obs. cbv beta iota zeta.
+  rewrite Nnat.Nat2N.id. rewrite firstn_map_app, skipn_map_app. fold sts. fold (nflags (sb s') (slog s')).
+  rewrite Ede. cbn [fst snd]. rewrite C1, C2, C3, C4, C5, C6, C7. cbn [app].
+  eexists. split; [reflexivity|]. split; [|split; [eauto | exact Hset']].
+  split; [|split; [|split; [reflexivity | split; reflexivity]]]; cbn [mas].
+  - rewrite map_length, combine_length, L1. unfold sts. rewrite map_length, Elen. apply Nat.min_id.
+  - intros i mx' x' Hm Hx. rewrite nth_error_map in Hm.
+    destruct (nth_error (combine (mon_mas1 m e) sts) i) as [[mx st]|] eqn:Gp; [|discriminate].
+    cbn [option_map setlast] in Hm. inversion Hm; subst mx'. clear Hm.
+    apply nth_error_combine in Gp as (G1 & G2). unfold sts in G2. rewrite nth_error_map, Hx in G2. cbn [option_map] in G2.
+    inversion G2; subst st.
+    destruct (HM i x' Hx) as (x1 & Hx1 & (Eak & Eac & _ & _)). destruct (A1 i mx x1 G1 Hx1) as ((B1 & B2) & B3).
+    split; [|reflexivity]. split; [cbn [mkd]; congruence|]. intros pk k Hw. cbn [mcanc]. rewrite Eac. apply (B2 pk k). exact Hw.
+Qed.
+
+Theorem model_satisfies_monitors_gen evs : forall s m i rep, HR s -> R m s ->
+  monitor mon i m rep evs (run_obs hstep s evs) = [].
+Proof.
+  induction evs as [|e evs IH]; intros s m i rep Hs Hm; [reflexivity|].
+  cbn [run_obs]. destruct (hstep s e) as [[s' o]|] eqn:E; [|reflexivity].
+  destruct (mon_step m s e s' o Hs Hm E) as (m' & Em & Hm' & Hs').
+  cbn [monitor]. rewrite Em. cbn [filter map app]. apply IH; assumption.
+Qed.
+
+Lemma HR_init : HR init.
+Proof. split; [exists []; reflexivity|]. intros a x c v H. destruct a; discriminate. Qed.
+
+Lemma R_init : R minit init.
+Proof.
+  split; [reflexivity|]. split; [intros i mx x H; destruct i; discriminate|]. repeat split; reflexivity.
+Qed.
+
+(* the monitors report nothing on the model's own observations, for every event list *)
+Theorem model_satisfies_monitors evs : monitor mon 0 minit [] evs (run_obs hstep init evs) = [].
+Proof. apply model_satisfies_monitors_gen; [apply HR_init | apply R_init]. Qed.
+
+Lemma list_eqb_refl l : list_eqb l l = true.
+Proof. induction l as [|h t IH]; [reflexivity|]. cbn [list_eqb]. now rewrite N.eqb_refl, IH. Qed.
+
+Lemma replay_own evs : forall s i, length (run_obs hstep s evs) = length evs ->
+  replay hstep i s evs (run_obs hstep s evs) = [].
+Proof.
+  induction evs as [|e evs IH]; intros s i Hl; [reflexivity|]. cbn [run_obs replay] in *.
+  destruct (hstep s e) as [[s' o]|]; [|discriminate Hl]. cbn [length] in Hl. rewrite list_eqb_refl. apply IH. lia.
+Qed.
+
+(* hence the whole checker accepts every history the model itself produces *)
+Theorem model_run_check_clean evs :
+  length (run_obs hstep init evs) = length evs -> run_check_bcast [] evs (run_obs hstep init evs) = [].
+Proof.
+  intros Hl. unfold run_check_bcast, run_check. rewrite (replay_own evs init 0 Hl), model_satisfies_monitors. reflexivity.
+Qed.
